@@ -30,7 +30,11 @@ What the C rendering adds so that it means what the C3 text means without leanin
 
 Families (all deterministic lists, simplest first): E1 depth-1 operators per type; CAST / CASTCHAIN conversions; W mixed operand types;
 LIT literal operands; ASSOC unparenthesised chains; E2 / E2F / E2M / E3 depth-2 expressions; COND short-circuit conditions; S statement
-skeletons; A aggregates; X further statement forms; CONST constant expressions evaluated by the front end; MOD two modules.
+skeletons; A aggregates; X further statement forms; CONST constant expressions evaluated by the front end; MOD two modules; and the
+extension families written as pairs of texts (xcase): GI global initial values, STR string literals, PCAST integer <-> pointer casts, EXT
+external functions (with a call trace), REC recursive data types, MODX more module constellations, KUSE constants in use, COERCE implicit
+conversion positions.  Extra case fields: "externs" (externals the harness defines on both sides), "expect": "diagnostic" (a program that
+is not C3), "ref" (where ppci's documentation / tests use the construct), "locus" (shared key for several forms of one mechanism).
 `c_driver` renders the translation unit (cases + table-driven driver) that gcc compiles; `parse_driver_output` reads its output.
 """
 import itertools
@@ -1357,6 +1361,733 @@ def fam_CASTCHAIN(types=INT_NAMES):
         yield case("CASTCHAIN", "%s->%s->%s" % (t1, t2, t3), simple(t3, [("a", t1)], [("ret", CAST(CAST(a, t2), t3))]), k=9)
 
 
+# ==================================================================== extension families (global initialisers, strings, pointer casts,
+# externals, recursive types, modules, constants in use, coercion positions)
+
+M64 = (1 << 64) - 1
+STR_TYPEDEF = "typedef struct { int len; unsigned char txt[]; } vfstr@;\n"
+TRACE_C = ("unsigned long long vf_tr@[64]; int vf_tn@;\n"
+           "static void vf_rec@(unsigned long long v){ if (vf_tn@ < 64) vf_tr@[vf_tn@] = v; vf_tn@ = vf_tn@ + 1; }\n")
+
+
+def c_strlit(name, text):
+    """A C object with the layout C3 defines for a string literal (context.pack_string: an int length followed by the text bytes;
+    scope.create_top_scope: string = struct { int len; byte[0] txt; } *)."""
+    n = len(text)
+    return "static struct { int len; unsigned char txt[%d]; } %s = { %d, {%s} };\n" % (max(n, 1), name, n, ", ".join(str(ord(ch)) for ch in text) or "0")
+
+
+def ext(name, eid, ret, params, mod="m", declare=True):
+    """An external function: declared without body in C3; the harness defines it on both sides (see ext_c_def / c37.make_external)."""
+    return {"name": name, "id": eid, "ret": ret, "params": list(params), "mod": mod, "declare": declare}
+
+
+def ext_ctype(t):
+    if t == "int*":
+        return "int *"
+    if t == "string":
+        return "vfstr@ *"
+    return CNAME[t]
+
+
+def ext_c3_decl(x, public=False):
+    return "%sfunction %s %s(%s);" % ("public " if public else "", x["ret"], x["name"], ", ".join("%s p%d" % (t, i) for i, t in enumerate(x["params"])))
+
+
+def ext_c_def(x):
+    """The fixed semantics of every external: append (id, one word per argument) to the trace; result = 3 * (sum of the argument
+    words) + id + 1 modulo 2^64, converted to the result type.  int* arguments contribute the pointed-to value, which is then
+    incremented; string arguments contribute their length and a hash of their text."""
+    body = ["unsigned long long s = 0ULL;", "vf_rec@(%dULL);" % x["id"]]
+    for i, t in enumerate(x["params"]):
+        p = "p%d" % i
+        if t in INTS or t == "bool":
+            body.append("{ unsigned long long v = (unsigned long long)(long long)%s; vf_rec@(v); s += v; }" % p)
+        elif t in FLOATS:
+            body.append("{ double d = (double)%s; unsigned long long b; memcpy(&b, &d, 8); vf_rec@(b); s += (unsigned long long)(long long)d; }" % p)
+        elif t == "int*":
+            body.append("{ unsigned long long v = (unsigned long long)(long long)*%s; vf_rec@(v); s += v; *%s = (int)((unsigned)*%s + 1u); }" % (p, p, p))
+        elif t == "string":
+            body.append("{ unsigned long long h = 0ULL; for (int i = 0; i < %s->len; i++) h = h * 31ULL + %s->txt[i]; "
+                        "vf_rec@((unsigned long long)(long long)%s->len); vf_rec@(h); s += (unsigned long long)(long long)%s->len; }" % (p, p, p, p))
+        else:
+            raise ValueError(t)
+    r = "(3ULL * s + %dULL + 1ULL)" % x["id"]
+    rt = x["ret"]
+    if rt == "void":
+        pass
+    elif rt == "bool":
+        body.append("return (int)(%s & 1ULL);" % r)
+    elif rt in FLOATS:
+        body.append("return (%s)((double)(long long)%s + 0.5);" % (rt, r))
+    else:
+        body.append("return (%s)%s;" % (CNAME[rt], r))
+    sig = ", ".join("%s p%d" % (ext_ctype(t), i) for i, t in enumerate(x["params"])) or "void"
+    return "%s %s(%s){ %s }\n" % (CNAME[rt], x["name"], sig, " ".join(body))
+
+
+def xcase(fam, feat, c3, c, ret="int", params=("int",), vecs=None, globals_=(), cmp_globals=(), mods=None, externs=None, expect=None, ref=None,
+          strings=False):
+    """A case written as two texts, optionally with externals (trace compared), an expected diagnostic, or a reference into ppci's own
+    documentation / tests saying the construct is valid."""
+    if vecs is None:
+        vecs = small_vectors(list(params)) if len(params) <= 2 and all(is_int(t) for t in params) else vectors(list(params), 5, 16)
+    pre = STR_TYPEDEF if (strings or any("string" in x["params"] for x in externs or [])) else ""
+    if externs:
+        c3 = "".join(ext_c3_decl(x) + "\n" for x in externs if x["declare"]) + c3
+        pre += TRACE_C + "".join(ext_c_def(x) for x in externs)
+        globals_ = list(globals_) + ["vf_tr@", "vf_tn@"]
+    cs = raw_case(fam, feat, c3, pre + c, ret, list(params), vecs, globals_, cmp_globals, mods)
+    if externs:
+        cs["externs"] = externs
+    if expect:
+        cs["expect"] = expect
+    if ref:
+        cs["ref"] = ref
+    return cs
+
+
+def invalid(fam, feat, c3, mods=None):
+    """A program that is not C3 (ppci's own tests / the structure of the language say so): the front end must answer with a diagnostic.
+    Nothing is executed; the C text is a placeholder."""
+    return xcase(fam, "invalid/" + feat, c3, "int f@(int a) { return 0; }\n", "int", ["int"], [[0]], mods=mods, expect="diagnostic")
+
+
+ALL12 = INT_NAMES + ["float", "double"]
+GI_VALUE = {"int": 70000, "byte": 200, "int8_t": 100, "int16_t": 30000, "int32_t": 70000, "int64_t": 70000, "uint8_t": 200, "uint16_t": 60000,
+            "uint32_t": 70000, "uint64_t": 70000, "float": 2.5, "double": 2.5}
+
+
+def wide(t):
+    return "double" if is_float(t) else "int64_t"
+
+
+def c3_lit(v):
+    return repr(v) if isinstance(v, float) else str(v)
+
+
+def fam_GI(thorough):
+    """global variables with initial values: every scalar type as a scalar / array element / struct field (literal coerced implicitly,
+    and through an explicit cast), aggregates nested to depth 2, constant expressions as values; local initialisers of struct type."""
+    vec3 = [[0], [1], [2]]
+    for t in ALL12 + ["bool", "int*"]:
+        w = "int64_t" if t in ("bool", "int*") else wide(t)
+        cw = CNAME[w]
+        if t == "bool":
+            forms = [("literal", "true", "1")]
+            ct = "int"
+            rd3, rdc = "cast<int64_t>(%s)", "(long)%s"
+        elif t == "int*":
+            forms = [("literal", "0", "0"), ("cast", "cast<int*>(64)", "(int *)64")]
+            ct = "int *"
+            rd3, rdc = "cast<int64_t>(%s)", "(long)%s"
+        else:
+            v = GI_VALUE[t]
+            ct = CNAME[t]
+            forms = [("literal", c3_lit(v), "(%s)%s" % (ct, c3_lit(v))), ("cast", "cast<%s>(%s)" % (t, c3_lit(v)), "(%s)%s" % (ct, c3_lit(v)))]
+            if is_float(t):
+                forms.append(("int-literal", "3", "(%s)3" % ct))
+            elif not signed(t):
+                forms.append(("wrapping-literal", str(GI_VALUE[t] + (1 << bits(t))) if bits(t) < 32 else "7", "(%s)%s" % (ct, GI_VALUE[t] if bits(t) < 32 else 7)))
+            rd3, rdc = "cast<%s>(%%s)" % w, "(%s)%%s" % cw
+        c3t = t
+        for form, v3, vc in forms:
+            if t == "bool":
+                yield xcase("GI", "scalar/%s/%s" % (form, t), "var bool g@ = %s;\nfunction int f@(int a) {\n  if (g@) {\n    return (a + 1);\n  }\n  return a;\n}\n" % v3,
+                            "int g@ = %s;\nint f@(int a) { if (g@) { return (a + 1); } return a; }\n" % vc, "int", ["int"], vec3, ["g@"], ["g@"])
+                continue
+            yield xcase("GI", "scalar/%s/%s" % (form, t), "var %s g@ = %s;\nfunction %s f@(int a) {\n  return %s;\n}\n" % (c3t, v3, w, rd3 % "g@"),
+                        "%s g@ = %s;\n%s f@(int a) { return %s; }\n" % (ct, vc, cw, rdc % "g@"), w, ["int"], [[0]], ["g@"], ["g@"])
+            yield xcase("GI", "array-element/%s/%s" % (form, t), "var %s[3] g@ = {%s, %s, %s};\nfunction %s f@(int a) {\n  return %s;\n}\n" % (c3t, v3, v3, v3, w, rd3 % "g@[a]"),
+                        "%s g@[3] = {%s, %s, %s};\n%s f@(int a) { return %s; }\n" % (ct, vc, vc, vc, cw, rdc % "g@[a]"), w, ["int"], vec3, ["g@"], ["g@"])
+            yield xcase("GI", "struct-field/%s/%s" % (form, t), "type struct { byte c; %s v; byte d; } S@;\nvar S@ g@ = {.c=7, .v=%s, .d=9};\nfunction %s f@(int a) {\n  return (%s + cast<%s>((g@.c + g@.d)));\n}\n"
+                        % (c3t, v3, w, rd3 % "g@.v", w),
+                        "typedef struct { unsigned char c; %s v; unsigned char d; } S@;\nS@ g@ = {.c=7, .v=%s, .d=9};\n%s f@(int a) { return (%s + (%s)(unsigned char)(g@.c + g@.d)); }\n"
+                        % (ct, vc, cw, rdc % "g@.v", cw), w, ["int"], [[0]], ["g@"], [])
+    # aggregates (fields of the types every form of which the front end accepts): each field / element read back
+    sdef3 = "type struct { int x; byte y; int z; } S@;\n"
+    sdefc = "typedef struct { int x; unsigned char y; int z; } S@;\n"
+    for k, (r3, rc) in enumerate((("g@.x", "g@.x"), ("cast<int>(g@.y)", "(int)g@.y"), ("g@.z", "g@.z"))):
+        yield xcase("GI", "struct/field-%d" % k, sdef3 + "var S@ g@ = {.x=11, .y=22, .z=33};\nfunction int f@(int a) {\n  return (a + %s);\n}\n" % r3,
+                    sdefc + "S@ g@ = {.x=11, .y=22, .z=33};\nint f@(int a) { return (a + %s); }\n" % rc, "int", ["int"], [[0], [5]], ["g@"], [])
+    idef3 = "type struct { byte u; int v; } I@;\n"
+    idefc = "typedef struct { unsigned char u; int v; } I@;\n"
+    odef3 = idef3 + "type struct { byte h; I@ in; int[3] arr; double d; } O@;\n"
+    odefc = idefc + "typedef struct { unsigned char h; I@ in; int arr[3]; double d; } O@;\n"
+    oinit = "{.h=1, .in={.u=2, .v=3}, .arr={4, 5, 6}, .d=2.5}"
+    for name, r3, rc, rt in (("first", "cast<int>(o@.h)", "(int)o@.h", "int"), ("nested-byte", "cast<int>(o@.in.u)", "(int)o@.in.u", "int"), ("nested-int", "o@.in.v", "o@.in.v", "int"),
+                             ("array-in-struct", "o@.arr[a]", "o@.arr[a]", "int"), ("after-array", "o@.d", "o@.d", "double")):
+        yield xcase("GI", "struct-nested/%s" % name, odef3 + "var O@ o@ = %s;\nfunction %s f@(int a) {\n  return %s;\n}\n" % (oinit, rt, r3),
+                    odefc + "O@ o@ = %s;\n%s f@(int a) { return %s; }\n" % (oinit, CNAME[rt], rc), rt, ["int"], vec3, ["o@"], [])
+    yield xcase("GI", "array-of-struct", idef3 + "var I@[2] g@ = {{.u=1, .v=a1@}, {.u=3, .v=(a1@ * 2)}};\nconst int a1@ = 21;\nfunction int f@(int a) {\n  return (g@[a].v + cast<int>(g@[a].u));\n}\n",
+                idefc + "I@ g@[2] = {{.u=1, .v=21}, {.u=3, .v=(21 * 2)}};\nint f@(int a) { return (g@[a].v + (int)g@[a].u); }\n", "int", ["int"], [[0], [1]], ["g@"], [])
+    yield xcase("GI", "array-2d", "var int[3][2] g@ = {{1, 4, 5}, {9, 8, 7}};\nfunction int f@(int a, int b) {\n  return g@[a][b];\n}\n",
+                "int g@[2][3] = {{1, 4, 5}, {9, 8, 7}};\nint f@(int a, int b) { return g@[a][b]; }\n", "int", ["int", "int"], [[i, j] for i in range(2) for j in range(3)], ["g@"], ["g@"],
+                ref="test/lang/test_c3.py test_array_initialization")
+    yield xcase("GI", "array-byte-2d", "var byte[2][3] g@ = {{1, 200}, {3, 4}, {255, 6}};\nfunction int f@(int a, int b) {\n  return cast<int>(g@[a][b]);\n}\n",
+                "unsigned char g@[3][2] = {{1, 200}, {3, 4}, {255, 6}};\nint f@(int a, int b) { return (int)g@[a][b]; }\n", "int", ["int", "int"], [[i, j] for i in range(3) for j in range(2)], ["g@"], ["g@"])
+    yield xcase("GI", "array-of-struct-with-array", "type struct { byte t; int[2] p; } R@;\nvar R@[2] g@ = {{.t=1, .p={10, 20}}, {.t=2, .p={30, 40}}};\nfunction int f@(int a, int b) {\n  return (g@[a].p[b] + cast<int>(g@[a].t));\n}\n",
+                "typedef struct { unsigned char t; int p[2]; } R@;\nR@ g@[2] = {{.t=1, .p={10, 20}}, {.t=2, .p={30, 40}}};\nint f@(int a, int b) { return (g@[a].p[b] + (int)g@[a].t); }\n", "int", ["int", "int"],
+                [[i, j] for i in range(2) for j in range(2)], ["g@"], [])
+    yield xcase("GI", "const-expression-values", "const int n@ = 4;\nvar int g@ = (n@ * 2);\nvar int[3] h@ = {n@, (n@ + 1), (7 / 2)};\nfunction int f@(int a) {\n  return (g@ + h@[a]);\n}\n",
+                "int g@ = (4 * 2);\nint h@[3] = {4, (4 + 1), (7 / 2)};\nint f@(int a) { return (g@ + h@[a]); }\n", "int", ["int"], vec3, ["g@", "h@"], ["g@", "h@"])
+    yield xcase("GI", "two-struct-types", "type struct { int x; } P@;\ntype struct { byte y; int z; } Q@;\ntype struct { P@ p; Q@ q; } PQ@;\nvar PQ@ g@ = {.p={.x=5}, .q={.y=6, .z=7}};\n"
+                "function int f@(int a) {\n  return ((g@.p.x * 100) + ((cast<int>(g@.q.y) * 10) + g@.q.z));\n}\n",
+                "typedef struct { int x; } P@;\ntypedef struct { unsigned char y; int z; } Q@;\ntypedef struct { P@ p; Q@ q; } PQ@;\nPQ@ g@ = {.p={.x=5}, .q={.y=6, .z=7}};\n"
+                "int f@(int a) { return ((g@.p.x * 100) + (((int)g@.q.y * 10) + g@.q.z)); }\n", "int", ["int"], [[0]], ["g@"], [])
+    yield xcase("GI", "same-struct-type-twice", "type struct { int x; } P@;\ntype struct { P@ p; P@ q; } PP@;\nvar PP@ g@ = {.p={.x=5}, .q={.x=6}};\nfunction int f@(int a) {\n  return ((g@.p.x * 10) + g@.q.x);\n}\n",
+                "typedef struct { int x; } P@;\ntypedef struct { P@ p; P@ q; } PP@;\nPP@ g@ = {.p={.x=5}, .q={.x=6}};\nint f@(int a) { return ((g@.p.x * 10) + g@.q.x); }\n", "int", ["int"], [[0]], ["g@"], [])
+    # an initialised global is a variable: written later, the other elements keep their initial values
+    yield xcase("GI", "initialised-then-written", sdef3 + "var S@ g@ = {.x=11, .y=22, .z=33};\nvar int[3] h@ = {1, 2, 3};\nfunction int f@(int a) {\n  g@.y = cast<byte>(a);\n  h@[1] = a;\n  return (((g@.x + cast<int>(g@.y)) + g@.z) + ((h@[0] + h@[1]) + h@[2]));\n}\n",
+                sdefc + "S@ g@ = {.x=11, .y=22, .z=33};\nint h@[3] = {1, 2, 3};\nint f@(int a) { g@.y = (unsigned char)a; h@[1] = a; return (((g@.x + (int)g@.y) + g@.z) + ((h@[0] + h@[1]) + h@[2])); }\n",
+                "int", ["int"], [[0], [5], [300], [-1]], ["g@", "h@"], ["h@"])
+    # local variables of struct type with initialisers evaluated at run time
+    yield xcase("GI", "local-struct", "type struct { byte u; int v; int64_t w; } L@;\nfunction int f@(int a, int b) {\n  var L@ s = {.u=cast<byte>(a), .v=(a + b), .w=cast<int64_t>(b)};\n  return (((cast<int>(s.u) * 100) + (s.v * 10)) + cast<int>(s.w));\n}\n",
+                "typedef struct { unsigned char u; int v; long w; } L@;\nint f@(int a, int b) { L@ s = {.u=(unsigned char)a, .v=(a + b), .w=(long)b}; return ((((int)s.u * 100) + (s.v * 10)) + (int)s.w); }\n", "int", ["int", "int"])
+    yield xcase("GI", "local-struct-nested", idef3 + "type struct { I@ in; int[2] arr; } LO@;\nfunction int f@(int a, int b) {\n  var LO@ s = {.in={.u=cast<byte>(b), .v=a}, .arr={(a - b), 4}};\n  return ((s.in.v + cast<int>(s.in.u)) + (s.arr[0] * s.arr[1]));\n}\n",
+                idefc + "typedef struct { I@ in; int arr[2]; } LO@;\nint f@(int a, int b) { LO@ s = {.in={.u=(unsigned char)b, .v=a}, .arr={(a - b), 4}}; return ((s.in.v + (int)s.in.u) + (s.arr[0] * s.arr[1])); }\n", "int", ["int", "int"])
+    yield xcase("GI", "local-array-of-struct", idef3 + "function int f@(int a, int b) {\n  var I@[2] s = {{.u=1, .v=a}, {.u=3, .v=b}};\n  return ((s[1].v - s[0].v) + cast<int>(s[1].u));\n}\n",
+                idefc + "int f@(int a, int b) { I@ s[2] = {{.u=1, .v=a}, {.u=3, .v=b}}; return ((s[1].v - s[0].v) + (int)s[1].u); }\n", "int", ["int", "int"])
+    yield xcase("GI", "local-array-2d", "function int f@(int a, int b) {\n  var int[2][2] m = {{a, b}, {(a + b), 4}};\n  return (((m[0][0] * 1000) + (m[0][1] * 100)) + ((m[1][0] * 10) + m[1][1]));\n}\n",
+                "int f@(int a, int b) { int m[2][2] = {{a, b}, {(a + b), 4}}; return (((m[0][0] * 1000) + (m[0][1] * 100)) + ((m[1][0] * 10) + m[1][1])); }\n", "int", ["int", "int"])
+    yield xcase("GI", "local-struct-coerced-fields", "type struct { byte u; int64_t w; double d; int v; } LC@;\nfunction double f@(int a, int b) {\n  var LC@ s = {.u=a, .w=b, .d=a, .v=7};\n  return (((cast<double>(s.u) * 1000.0) + cast<double>(s.w)) + (s.d * cast<double>(s.v)));\n}\n",
+                "typedef struct { unsigned char u; long w; double d; int v; } LC@;\ndouble f@(int a, int b) { LC@ s = {.u=(unsigned char)a, .w=(long)b, .d=(double)a, .v=7}; return ((((double)s.u * 1000.0) + (double)s.w) + (s.d * (double)s.v)); }\n", "double", ["int", "int"],
+                small_vectors(["int", "int"]))
+    yield xcase("GI", "local-byte-array-coerced", "function int f@(int a, int b) {\n  var byte[3] s = {1, a, 300};\n  return ((cast<int>(s[1]) + cast<int>(s[2])) + cast<int>(s[0]));\n}\n",
+                "int f@(int a, int b) { unsigned char s[3] = {1, (unsigned char)a, (unsigned char)300}; return (((int)s[1] + (int)s[2]) + (int)s[0]); }\n", "int", ["int", "int"])
+    # what test_c3.py expects to be refused (test_bad_struct_initialization, test_bad_global_array_initialization) and its neighbours
+    two = "type struct { int x; int y; } T@;\n"
+    for feat, decl in (("struct-fields-in-other-order", two + "var T@ g@ = {.y=1, .x=2};"), ("struct-field-missing", two + "var T@ g@ = {.x=2};"),
+                       ("struct-field-surplus", two + "var T@ g@ = {.x=2, .y=3, .z=4};"), ("struct-positional", two + "var T@ g@ = {1, 2};"),
+                       ("struct-unknown-field", two + "var T@ g@ = {.x=1, .q=2};"), ("struct-from-scalar", two + "var T@ g@ = 1;"),
+                       ("array-named", "var int[2] g@ = {.x=1, .y=2};"), ("array-too-few", "var int[3] g@ = {1, 2};"), ("array-too-many", "var int[2] g@ = {1, 2, 3};"),
+                       ("array-from-scalar", "var int[5] g@ = 4;"), ("scalar-from-list", "var int g@ = {4};"), ("value-not-constant", "var int h@ = 1;\nvar int g@ = (h@ + 1);"),
+                       ("nested-array-shape", "var int[3][2] g@ = {{1, 2}, {3, 4}, {5, 6}};"), ("double-into-int", "var int g@ = 2.5;")):
+        yield invalid("GI", feat, decl + "\nfunction int f@(int a) {\n  return a;\n}\n")
+    yield invalid("GI", "local-struct-fields-in-other-order", two + "function int f@(int a) {\n  var T@ s = {.y=a, .x=1};\n  return s.x;\n}\n")
+
+
+STR_TEXTS = ["", "a", "hello", "C3 str! #1", "0123456789abcdefghij"]
+
+
+def fam_STR(thorough):
+    """string literals: length and every character of 5 texts (lengths 0, 1, 5, 10, 20) in 4 contexts (local initialiser, assignment to a
+    global, argument, element of an array of strings); passing a string on; the documented layout seen through a byte pointer."""
+    lens3 = "function int len@(string s) {\n  return s->len;\n}\nfunction int at@(string s, int i) {\n  return cast<int>(s->txt[i]);\n}\n"
+    lensc = "int len@(vfstr@ *s) { return s->len; }\nint at@(vfstr@ *s, int i) { return (int)s->txt[i]; }\n"
+    for n, text in enumerate(STR_TEXTS):
+        L = len(text)
+        idx = [[i] for i in range(L)] or [[0]]
+        lit = c_strlit("lit@", text)
+        ptr = "((vfstr@ *)&lit@)"
+        at3 = "cast<int>(%s->txt[a])" if L else "0"
+        atc = "(int)%s->txt[a]" if L else "0"
+        ctxs = [("local-init", "function int f@(int a) {\n  var string s = \"%s\";\n  return ((s->len * 1000) + %s);\n}\n" % (text, at3 % "s" if L else "0"),
+                 lit + "int f@(int a) { vfstr@ *s = %s; return ((s->len * 1000) + %s); }\n" % (ptr, atc % "s" if L else "0"), []),
+                ("global-assign", "var string g@;\nfunction int f@(int a) {\n  g@ = \"%s\";\n  return ((g@->len * 1000) + %s);\n}\n" % (text, at3 % "g@" if L else "0"),
+                 lit + "vfstr@ *g@;\nint f@(int a) { g@ = %s; return ((g@->len * 1000) + %s); }\n" % (ptr, atc % "g@" if L else "0"), []),
+                ("argument", lens3 + "function int f@(int a) {\n  return ((len@(\"%s\") * 1000) + %s);\n}\n" % (text, "at@(\"%s\", a)" % text if L else "0"),
+                 lit + lensc + "int f@(int a) { return ((len@(%s) * 1000) + %s); }\n" % (ptr, "at@(%s, a)" % ptr if L else "0"), []),
+                ("array-of-strings", "function int f@(int a) {\n  var string[2] t = {\"zz\", \"%s\"};\n  return (((t[1]->len * 1000) + %s) + t[0]->len);\n}\n" % (text, at3 % "t[1]" if L else "0"),
+                 lit + c_strlit("zz@", "zz") + "int f@(int a) { vfstr@ *t[2] = {(vfstr@ *)&zz@, %s}; return (((t[1]->len * 1000) + %s) + t[0]->len); }\n" % (ptr, atc % "t[1]" if L else "0"), [])]
+        for name, c3, c, gl in ctxs:
+            cs = xcase("STR", "%s/len%d" % (name, L), c3, c, "int", ["int"], idx, gl, [], strings=True)
+            cs["locus"] = name
+            yield cs
+        # the layout: bytes 0..3 hold the length (little endian on x86-64), the text follows
+        if L:
+            cs = xcase("STR", "layout/len%d" % L, "function int f@(int a) {\n  var string s = \"%s\";\n  var byte* p = cast<byte*>(s);\n  return cast<int>(*(p + a));\n}\n" % text,
+                        lit + "int f@(int a) { vfstr@ *s = %s; unsigned char *p = (unsigned char *)s; return (int)(*(p + a)); }\n" % ptr, "int", ["int"], [[i] for i in range(4 + L)], strings=True)
+            cs["locus"] = "layout"
+            yield cs
+    text = "hello"
+    lit = c_strlit("lit@", text)
+    ptr = "((vfstr@ *)&lit@)"
+    yield xcase("STR", "passed-on", lens3 + "function int mid@(string s, int i) {\n  return (at@(s, i) + len@(s));\n}\nfunction int f@(int a) {\n  var string s = \"hello\";\n  return mid@(s, a);\n}\n",
+                lit + lensc + "int mid@(vfstr@ *s, int i) { return (at@(s, i) + len@(s)); }\nint f@(int a) { vfstr@ *s = %s; return mid@(s, a); }\n" % ptr, "int", ["int"], [[i] for i in range(5)], strings=True)
+    yield xcase("STR", "returned", "function string pick@(int i) {\n  if (i > 1) {\n    return \"hello\";\n  }\n  return \"zz\";\n}\nfunction int f@(int a) {\n  var string s = pick@(a);\n  return ((s->len * 1000) + cast<int>(s->txt[1]));\n}\n",
+                lit + c_strlit("zz@", "zz") + "vfstr@ *pick@(int i) { if (i > 1) { return %s; } return (vfstr@ *)&zz@; }\nint f@(int a) { vfstr@ *s = pick@(a); return ((s->len * 1000) + (int)s->txt[1]); }\n" % ptr,
+                "int", ["int"], [[0], [1], [2], [3]], strings=True)
+    yield xcase("STR", "copied-pointer-identity", "function int f@(int a) {\n  var string s = \"hello\";\n  var string t = s;\n  if (s == t) {\n    return (t->len + a);\n  }\n  return 0;\n}\n",
+                lit + "int f@(int a) { vfstr@ *s = %s; vfstr@ *t = s; if (s == t) { return (t->len + a); } return 0; }\n" % ptr, "int", ["int"], [[0], [1]], strings=True)
+    yield xcase("STR", "loop-over-text", "function int f@(int a) {\n  var string s = \"hello\";\n  var int i = 0;\n  var int h = a;\n  for (i = 0; i < s->len; i += 1) {\n    h = ((h * 31) + cast<int>(s->txt[i]));\n  }\n  return h;\n}\n",
+                lit + "int f@(int a) { vfstr@ *s = %s; int i = 0; int h = a; for (i = 0; i < s->len; i = i + 1) { h = (int)(((unsigned)h * 31u) + (unsigned)s->txt[i]); } return h; }\n" % ptr,
+                "int", ["int"], [[0], [1], [2]], strings=True)
+    yield xcase("STR", "no-escapes", "function int f@(int a) {\n  var string s = \"a\\nb\";\n  return ((s->len * 1000) + cast<int>(s->txt[a]));\n}\n",
+                c_strlit("lit@", "a\\nb") + "int f@(int a) { vfstr@ *s = %s; return ((s->len * 1000) + (int)s->txt[a]); }\n" % ptr, "int", ["int"], [[0], [1], [2], [3]], strings=True)
+    yield xcase("STR", "sizeof-string", "function int f@(int a) {\n  return (a + sizeof(string));\n}\n", "int f@(int a) { return (a + (int)sizeof(vfstr@ *)); }\n", "int", ["int"], [[0], [1]], strings=True)
+    yield xcase("STR", "global-initialiser", "var string g@ = \"hello\";\nfunction int f@(int a) {\n  return ((g@->len * 1000) + cast<int>(g@->txt[a]));\n}\n",
+                lit + "vfstr@ *g@ = %s;\nint f@(int a) { return ((g@->len * 1000) + (int)g@->txt[a]); }\n" % ptr, "int", ["int"], [[i] for i in range(5)], ["g@"], [], strings=True)
+    yield xcase("STR", "constant", "const string k@ = \"hello\";\nfunction int f@(int a) {\n  return ((k@->len * 1000) + cast<int>(k@->txt[a]));\n}\n",
+                lit + "int f@(int a) { vfstr@ *k = %s; return ((k->len * 1000) + (int)k->txt[a]); }\n" % ptr, "int", ["int"], [[i] for i in range(5)], strings=True)
+    yield invalid("STR", "string-into-int", "function int f@(int a) {\n  var int x = \"abc\";\n  return x;\n}\n")
+    yield invalid("STR", "string-plus-int-into-int", "function int f@(int a) {\n  return (\"abc\" + a);\n}\n")
+    yield invalid("STR", "index-string-directly", "function int f@(int a) {\n  var string s = \"abc\";\n  return cast<int>(s[a]);\n}\n")
+    yield invalid("STR", "unterminated", "function int f@(int a) {\n  var string s = \"abc;\n  return a;\n}\n")
+
+
+def fam_PCAST(thorough):
+    """casts between integers and pointers: every integer type to a pointer and back to int64_t (extension), a pointer to every integer
+    type (truncation), round trips through int64_t / uint64_t to a live object, address differences, byte views, pointer-to-pointer casts,
+    the implicit conversions towards pointers (pointer -> pointer, unsigned -> pointer, signed -> pointer) and pointer +- int (byte-wise)."""
+    for t in INT_NAMES:
+        ct = CNAME[t]
+        yield xcase("PCAST", "int-to-pointer/%s" % t, "function int64_t f@(%s a) {\n  return cast<int64_t>(cast<byte*>(a));\n}\n" % t,
+                    "long f@(%s a) { return (long)(unsigned char *)a; }\n" % ct, "int64_t", [t], vectors([t], 9, 16))
+        yield xcase("PCAST", "pointer-to-int/%s" % t, "function %s f@(int64_t a) {\n  return cast<%s>(cast<byte*>(a));\n}\n" % (t, t),
+                    "%s f@(long a) { return (%s)(unsigned long)(unsigned char *)a; }\n" % (ct, ct), t, ["int64_t"],
+                    [[v] for v in (0, 1, -1, 255, 256, 65535, 65536, 0x7fffffff, 0x80000000, 0xffffffff, 0x123456789, -0x123456789, (1 << 63) - 1, -(1 << 63))])
+        yield xcase("PCAST", "implicit-int-to-pointer/%s" % t, "function int64_t f@(%s a) {\n  var byte* p = a;\n  return cast<int64_t>(p);\n}\n" % t,
+                    "long f@(%s a) { unsigned char *p = (unsigned char *)a; return (long)p; }\n" % ct, "int64_t", [t], vectors([t], 9, 16))
+    for t in ("int64_t", "uint64_t"):
+        ct = CNAME[t]
+        yield xcase("PCAST", "round-trip-object/%s" % t, "var int g@ = 7;\nfunction int f@(int a) {\n  var %s n = cast<%s>(&g@);\n  var int* p = cast<int*>(n);\n  *p = (*p + a);\n  return g@;\n}\n" % (t, t),
+                    "int g@ = 7;\nint f@(int a) { %s n = (%s)&g@; int *p = (int *)n; *p = (*p + a); return g@; }\n" % (ct, ct), "int", ["int"], None, ["g@"], ["g@"])
+        yield xcase("PCAST", "round-trip-implicit/%s" % t, "var int g@ = 7;\nfunction int f@(int a) {\n  var %s n = cast<%s>(&g@);\n  var int* p = n;\n  *p = (*p - a);\n  return g@;\n}\n" % (t, t),
+                    "int g@ = 7;\nint f@(int a) { %s n = (%s)&g@; int *p = (int *)n; *p = (*p - a); return g@; }\n" % (ct, ct), "int", ["int"], None, ["g@"], ["g@"])
+    for et in ("byte", "int16_t", "int", "int64_t", "double"):
+        ct = CNAME[et]
+        yield xcase("PCAST", "address-difference/%s" % et, "var %s[4] g@;\nfunction int64_t f@(int a, int b) {\n  return (cast<int64_t>(&g@[a]) - cast<int64_t>(&g@[b]));\n}\n" % et,
+                    "%s g@[4];\nlong f@(int a, int b) { return ((long)&g@[a] - (long)&g@[b]); }\n" % ct, "int64_t", ["int", "int"], [[i, j] for i in range(4) for j in range(4)], ["g@"], ["g@"])
+    for et, n in (("int16_t", 2), ("int", 4), ("int64_t", 8), ("uint32_t", 4)):
+        ct = CNAME[et]
+        yield xcase("PCAST", "byte-view/%s" % et, "var %s g@;\nfunction int f@(int a, int b) {\n  g@ = cast<%s>(a);\n  var byte* p = cast<byte*>(&g@);\n  return cast<int>(*(p + b));\n}\n" % (et, et),
+                    "%s g@;\nint f@(int a, int b) { g@ = (%s)a; unsigned char *p = (unsigned char *)&g@; return (int)(*(p + b)); }\n" % (ct, ct), "int", ["int", "int"],
+                    [[v, k] for v in (0x12345678, -2, 255) for k in range(n)], ["g@"], ["g@"])
+        yield xcase("PCAST", "byte-store/%s" % et, "var %s g@;\nfunction int64_t f@(int a, int b) {\n  g@ = cast<%s>(0);\n  var byte* p = cast<byte*>(&g@);\n  *(p + b) = cast<byte>(a);\n  return cast<int64_t>(g@);\n}\n" % (et, et),
+                    "%s g@;\nlong f@(int a, int b) { g@ = 0; unsigned char *p = (unsigned char *)&g@; *(p + b) = (unsigned char)a; return (long)g@; }\n" % ct, "int64_t", ["int", "int"],
+                    [[v, k] for v in (1, 0x80, 0xff) for k in range(n)], ["g@"], ["g@"])
+    arr3 = "var int[4] g@ = {10, 20, 30, 40};\n"
+    arrc = "int g@[4] = {10, 20, 30, 40};\n"
+    vab = [[i, j] for i in range(4) for j in range(4)]
+    yield xcase("PCAST", "pointer-to-pointer/explicit", arr3 + "function int f@(int a, int b) {\n  var byte* q = cast<byte*>(&g@[a]);\n  var int* p = cast<int*>(q);\n  *p = (*p + b);\n  return (g@[a] + g@[0]);\n}\n",
+                arrc + "int f@(int a, int b) { unsigned char *q = (unsigned char *)&g@[a]; int *p = (int *)q; *p = (*p + b); return (g@[a] + g@[0]); }\n", "int", ["int", "int"], vab, ["g@"], ["g@"])
+    yield xcase("PCAST", "pointer-to-pointer/implicit", arr3 + "var int* pa@;\nvar byte* pb@;\nfunction int f@(int a, int b) {\n  pa@ = &g@[a];\n  pb@ = pa@;\n  *pb@ = cast<byte>(b);\n  return g@[a];\n}\n",
+                arrc + "int *pa@;\nunsigned char *pb@;\nint f@(int a, int b) { pa@ = &g@[a]; pb@ = (unsigned char *)pa@; *pb@ = (unsigned char)b; return g@[a]; }\n", "int", ["int", "int"], vab, ["g@", "pa@", "pb@"], ["g@"],
+                ref="test/lang/test_c3.py test_pointer_coercion")
+    yield xcase("PCAST", "pointer-to-struct-pointer", "type struct { int x; int y; } S@;\n" + arr3 + "function int f@(int a, int b) {\n  var S@* s = cast<S@*>(&g@[(a & 2)]);\n  s->y = b;\n  return ((s->x * 1000) + g@[((a & 2) + 1)]);\n}\n",
+                "typedef struct { int x; int y; } S@;\n" + arrc + "int f@(int a, int b) { S@ *s = (S@ *)&g@[(a & 2)]; s->y = b; return ((s->x * 1000) + g@[((a & 2) + 1)]); }\n", "int", ["int", "int"], vab, ["g@"], ["g@"])
+    # pointer +- int: C3 adds the integer to the address (no scaling: codegenerator.gen_binop on two ptr values)
+    for feat, e3, ec in (("pointer-plus-int", "(p + (b * 4))", "(int *)((char *)p + (b * 4))"), ("int-plus-pointer", "((b * 4) + p)", "(int *)((char *)p + (b * 4))"),
+                         ("pointer-minus-int", "((p + 12) - (b * 4))", "(int *)(((char *)p + 12) - (b * 4))")):
+        yield xcase("PCAST", "arithmetic/" + feat, arr3 + "function int f@(int a, int b) {\n  var int* p = &g@[0];\n  var int* q = %s;\n  *q = (*q + a);\n  return (((g@[0] + (g@[1] * 3)) + (g@[2] * 5)) + (g@[3] * 7));\n}\n" % e3,
+                    arrc + "int f@(int a, int b) { int *p = &g@[0]; int *q = %s; *q = (*q + a); return (((g@[0] + (g@[1] * 3)) + (g@[2] * 5)) + (g@[3] * 7)); }\n" % ec, "int", ["int", "int"], vab, ["g@"], ["g@"],
+                    ref="test/lang/test_c3.py test_pointer_arithmatic")
+    for op in CMPS:
+        yield xcase("PCAST", "compare/%s" % op, arr3 + "function int f@(int a, int b) {\n  var int* p = &g@[a];\n  var int* q = &g@[b];\n  if (p %s q) {\n    return 1;\n  }\n  return 0;\n}\n" % op,
+                    arrc + "int f@(int a, int b) { int *p = &g@[a]; int *q = &g@[b]; if (p %s q) { return 1; } return 0; }\n" % op, "int", ["int", "int"], vab, ["g@"], ["g@"])
+    yield xcase("PCAST", "compare/null-literal", arr3 + "function int f@(int a, int b) {\n  var int* p = 0;\n  if (a > 1) {\n    p = &g@[b];\n  }\n  if (p == 0) {\n    return (0 - 1);\n  }\n  return *p;\n}\n",
+                arrc + "int f@(int a, int b) { int *p = 0; if (a > 1) { p = &g@[b]; } if (p == 0) { return (0 - 1); } return *p; }\n", "int", ["int", "int"], vab, ["g@"], ["g@"])
+    yield xcase("PCAST", "arithmetic/shorthand-on-pointer", arr3 + "function int f@(int a, int b) {\n  var int* p = &g@[0];\n  p += (b * 4);\n  *p = (*p + a);\n  p -= (b * 4);\n  return (*p + g@[b]);\n}\n",
+                arrc + "int f@(int a, int b) { int *p = &g@[0]; p = (int *)((char *)p + (b * 4)); *p = (*p + a); p = (int *)((char *)p - (b * 4)); return (*p + g@[b]); }\n", "int", ["int", "int"], vab, ["g@"], ["g@"])
+    yield xcase("PCAST", "pointer-to-pointer/anonymous-structs", "var struct { int x; byte y; } s@;\nfunction int f@(int a, int b) {\n  var struct { int x; byte y; }* p = &s@;\n  var struct { int u; byte v; }* q = p;\n  var struct { int u; }* r = p;\n  q->u = a;\n  q->v = cast<byte>(b);\n  return ((r->u + s@.x) + cast<int>(p->y));\n}\n",
+                "struct { int x; unsigned char y; } s@;\nint f@(int a, int b) { s@.x = a; s@.y = (unsigned char)b; return ((s@.x + s@.x) + (int)s@.y); }\n", "int", ["int", "int"], None, ["s@"], [],
+                ref="test/lang/test_c3.py test_struct_unequal")
+    yield xcase("PCAST", "pointer-to-array", arr3 + "function int f@(int a, int b) {\n  var int[4]* p = &g@;\n  (*p)[a] = b;\n  var int[2]* h = cast<int[2]*>(&g@[2]);\n  return (((*p)[a] + g@[1]) + (*h)[(b & 1)]);\n}\n",
+                arrc + "int f@(int a, int b) { int (*p)[4] = &g@; (*p)[a] = b; int (*h)[2] = (int (*)[2])&g@[2]; return (((*p)[a] + g@[1]) + (*h)[(b & 1)]); }\n", "int", ["int", "int"], vab, ["g@"], ["g@"])
+    yield xcase("PCAST", "sizeof-pointer", "function int f@(int a) {\n  return ((a + sizeof(int*)) + sizeof(byte*));\n}\n", "int f@(int a) { return ((a + (int)sizeof(int *)) + (int)sizeof(unsigned char *)); }\n", "int", ["int"], [[0], [1]])
+    # not C3: a pointer is not silently an integer; pointer + (non-int) integer; pointer <-> floating point
+    for feat, body in (("pointer-into-int64", "var int64_t n = &a;\n  return cast<int>(n);"), ("pointer-into-int", "var int n = &a;\n  return n;"),
+                       ("pointer-plus-byte", "var byte b = 1;\n  var int* p = (&a + b);\n  return *p;"), ("pointer-plus-int64", "var int64_t b = 1;\n  var int* p = (&a + b);\n  return *p;"),
+                       ("double-to-pointer", "var double d = 1.0;\n  var int* p = cast<int*>(d);\n  return a;"), ("pointer-to-double", "var double d = cast<double>(&a);\n  return a;"),
+                       ("deref-int", "return *a;"), ("address-of-literal", "var int* p = &2;\n  return a;"), ("struct-to-pointer", "var struct { int x; } s;\n  var int* p = cast<int*>(s);\n  return a;")):
+        yield invalid("PCAST", feat, "function int f@(int a) {\n  %s\n}\n" % body)
+
+
+EXT_SCALARS = ["int", "byte", "int64_t", "double"]
+
+
+def fam_EXT(thorough):
+    """external functions and procedures (declarations without body): result type x parameter type over {void, int, byte, int64_t,
+    double, bool} x {int, byte, int64_t, double, bool, int*, string}; call shapes (sequence, nesting, operands, loop, branch,
+    short-circuit, for header, switch); implicit conversion of arguments; externals of an imported module.  The call trace (which
+    external, argument values, in order) is compared as well as the result."""
+    rets = ["void"] + EXT_SCALARS + (["bool", "float", "int16_t", "uint32_t"] if thorough else ["bool"])
+    pars = EXT_SCALARS + (["bool", "float", "int16_t", "uint32_t"] if thorough else [])
+    for rt in rets:
+        for pt in pars:
+            x = ext("ext@", 1, rt, [pt])
+            cpt = CNAME[pt]
+            vec = [[0], [1]] if pt == "bool" else vectors([pt], 5, 8)
+            if rt == "void":
+                yield xcase("EXT", "signature/void/%s" % pt, "function int f@(%s a) {\n  ext@(a);\n  return 1;\n}\n" % pt, "int f@(%s a) { ext@(a); return 1; }\n" % cpt, "int", [pt], vec, externs=[x])
+            elif rt == "bool":
+                yield xcase("EXT", "signature/bool/%s" % pt, "function int f@(%s a) {\n  if (ext@(a)) {\n    return 1;\n  }\n  return 0;\n}\n" % pt, "int f@(%s a) { if (ext@(a)) { return 1; } return 0; }\n" % cpt, "int", [pt], vec, externs=[x])
+            else:
+                yield xcase("EXT", "signature/%s/%s" % (rt, pt), "function %s f@(%s a) {\n  return ext@(a);\n}\n" % (rt, pt), "%s f@(%s a) { return ext@(a); }\n" % (CNAME[rt], cpt), rt, [pt], vec, externs=[x])
+    x = ext("ext@", 1, "int", [])
+    yield xcase("EXT", "signature/int/none", "function int f@(int a) {\n  return (a + ext@());\n}\n", "int f@(int a) { return (a + ext@()); }\n", "int", ["int"], [[0], [1]], externs=[x])
+    x = ext("ext@", 1, "bool", ["bool"])
+    yield xcase("EXT", "signature/bool/bool", "function int f@(int a, int b) {\n  if (ext@((a < b))) {\n    return 1;\n  }\n  return 0;\n}\n", "int f@(int a, int b) { if (ext@((a < b))) { return 1; } return 0; }\n", "int", ["int", "int"], externs=[x])
+    x = ext("inc@", 2, "void", ["int*"])
+    yield xcase("EXT", "signature/void/pointer", "function int f@(int a, int b) {\n  var int v = a;\n  inc@(&v);\n  inc@(&b);\n  inc@(&v);\n  return (v - b);\n}\n",
+                "int f@(int a, int b) { int v = a; inc@(&v); inc@(&b); inc@(&v); return (v - b); }\n", "int", ["int", "int"], externs=[x])
+    x = ext("peek@", 3, "int", ["int*"])
+    yield xcase("EXT", "signature/int/pointer-to-global", "var int[2] g@ = {5, 6};\nfunction int f@(int a, int b) {\n  g@[(a & 1)] = b;\n  return (peek@(&g@[(a & 1)]) + g@[(a & 1)]);\n}\n",
+                "int g@[2] = {5, 6};\nint f@(int a, int b) { g@[(a & 1)] = b; int t = peek@(&g@[(a & 1)]); return (t + g@[(a & 1)]); }\n", "int", ["int", "int"], None, ["g@"], ["g@"], externs=[x])
+    x = ext("slen@", 4, "int", ["string"])
+    yield xcase("EXT", "signature/int/string", "function int f@(int a) {\n  var string s = \"hello\";\n  if (a > 0) {\n    s = \"C3!\";\n  }\n  return (slen@(s) + slen@(\"\"));\n}\n",
+                c_strlit("l1@", "hello") + c_strlit("l2@", "C3!") + c_strlit("l3@", "") + "int f@(int a) { vfstr@ *s = (vfstr@ *)&l1@; if (a > 0) { s = (vfstr@ *)&l2@; } int t = slen@(s); return (t + slen@((vfstr@ *)&l3@)); }\n",
+                "int", ["int"], [[0], [1]], externs=[x])
+    x = ext("put@", 5, "void", ["string", "int"])
+    yield xcase("EXT", "signature/void/string-int", "function int f@(int a) {\n  put@(\"w=\", a);\n  put@(\"d=\", (a + 1));\n  return a;\n}\n",
+                c_strlit("l1@", "w=") + c_strlit("l2@", "d=") + "int f@(int a) { put@((vfstr@ *)&l1@, a); put@((vfstr@ *)&l2@, (a + 1)); return a; }\n", "int", ["int"], [[0], [7]], externs=[x],
+                ref="test/samples/simple/init.c3 (io.print2)")
+    # call shapes over: function int ext(int), procedure log(int, byte), function bool tst(int)
+    e, l, t = ext("ext@", 1, "int", ["int"]), ext("log@", 2, "void", ["int", "byte"]), ext("tst@", 3, "bool", ["int"])
+    shapes = [
+        ("sequence", [e, l], "log@(a, 1);\n  log@(b, 2);\n  var int r = ext@(a);\n  log@(r, 3);\n  return r;", "log@(a, 1); log@(b, 2); int r = ext@(a); log@(r, 3); return r;"),
+        ("nested", [e], "return ext@(ext@(ext@(a)));", "return ext@(ext@(ext@(a)));"),
+        ("operands-left-to-right", [e], "return (ext@(a) - ext@(b));", "int t1 = ext@(a); int t2 = ext@(b); return (t1 - t2);"),
+        ("operands-depth-2", [e], "return ((ext@(a) * ext@(1)) - (ext@(b) + ext@(2)));", "int t1 = ext@(a); int t2 = ext@(1); int t3 = ext@(b); int t4 = ext@(2); return ((t1 * t2) - (t3 + t4));"),
+        ("arguments-left-to-right", [e, l], "log@(ext@(a), cast<byte>(ext@(b)));\n  return 0;", "int t1 = ext@(a); int t2 = ext@(b); log@(t1, (unsigned char)t2); return 0;"),
+        ("comparison-operands", [e], "if (ext@(a) < ext@(b)) {\n    return 1;\n  }\n  return 0;", "int t1 = ext@(a); int t2 = ext@(b); if (t1 < t2) { return 1; } return 0;"),
+        ("loop", [e, l], "var int i = 0;\n  var int s = 0;\n  for (i = 0; i < (a & 3); i += 1) {\n    s += ext@((b + i));\n    log@(s, cast<byte>(i));\n  }\n  return s;",
+         "int i = 0; int s = 0; for (i = 0; i < (a & 3); i = i + 1) { s = s + ext@((b + i)); log@(s, (unsigned char)i); } return s;"),
+        ("while-condition", [t, l], "var int i = a;\n  while (tst@(i)) {\n    log@(i, 0);\n    i += 1;\n  }\n  return i;", "int i = a; while (tst@(i)) { log@(i, 0); i = i + 1; } return i;"),
+        ("for-header", [e, t], "var int i = 0;\n  var int s = 0;\n  for (i = ext@(a); tst@(i); i += ext@(b)) {\n    s += i;\n    if (s > 40) {\n      return s;\n    }\n    if (s < (0 - 40)) {\n      return s;\n    }\n  }\n  return s;",
+         "int i = 0; int s = 0; for (i = ext@(a); tst@(i); i = i + ext@(b)) { s = s + i; if (s > 40) { return s; } if (s < (0 - 40)) { return s; } } return s;"),
+        ("branch", [e, l], "if (a < b) {\n    log@(a, 1);\n  } else {\n    return ext@(b);\n  }\n  return 0;", "if (a < b) { log@(a, 1); } else { return ext@(b); } return 0;"),
+        ("short-circuit-and", [t], "if (tst@(a) and tst@(b)) {\n    return 1;\n  }\n  return 0;", "if (tst@(a) && tst@(b)) { return 1; } return 0;"),
+        ("short-circuit-or", [t], "if (tst@(a) or tst@(b)) {\n    return 1;\n  }\n  return 0;", "if (tst@(a) || tst@(b)) { return 1; } return 0;"),
+        ("short-circuit-value", [t], "var bool r = ((not tst@(a)) or (tst@(b) and tst@((a + b))));\n  if (r) {\n    return 1;\n  }\n  return 0;", "int r = ((!tst@(a)) || (tst@(b) && tst@((a + b)))); if (r) { return 1; } return 0;"),
+        ("switch", [e, l], "switch (ext@(a)) {\n    case 1: {\n      log@(1, 1);\n    }\n    case 4: {\n      log@(4, 4);\n      return ext@(b);\n    }\n    default: {\n      log@(b, 0);\n    }\n  }\n  return 0;",
+         "switch (ext@(a)) { case 1: { log@(1, 1); } break; case 4: { log@(4, 4); return ext@(b); } break; default: { log@(b, 0); } break; } return 0;"),
+        ("argument-literals-coerced", [l], "log@(1, 2);\n  log@((a + 1), 255);\n  return 0;", "log@(1, 2); log@((a + 1), 255); return 0;"),
+        ("result-stored-in-global", [e], "gg@ = ext@(a);\n  gg@ += ext@(b);\n  return gg@;", "gg@ = ext@(a); gg@ = gg@ + ext@(b); return gg@;"),
+        ("index-from-external", [e], "ga@[(ext@(a) & 3)] = b;\n  return ((ga@[0] + ga@[1]) + (ga@[2] + ga@[3]));", "int t1 = ext@(a); ga@[(t1 & 3)] = b; return ((ga@[0] + ga@[1]) + (ga@[2] + ga@[3]));"),
+        ("called-from-internal-function", [e, l], "return (in@(a) - in@(b));", "int t1 = in@(a); int t2 = in@(b); return (t1 - t2);"),
+        ("recursion-with-trace", [l], "if (a <= 0) {\n    return b;\n  }\n  log@(a, cast<byte>(b));\n  return f@((a - 1), (b + 1));", "if (a <= 0) { return b; } log@(a, (unsigned char)b); return f@((a - 1), (b + 1));"),
+    ]
+    for name, xs, b3, bc in shapes:
+        pre3 = prec = ""
+        gl, cg = [], []
+        if "gg@" in b3:
+            pre3, prec, gl, cg = "var int gg@ = 3;\n", "int gg@ = 3;\n", ["gg@"], ["gg@"]
+        if "ga@" in b3:
+            pre3, prec, gl, cg = "var int[4] ga@ = {1, 2, 3, 4};\n", "int ga@[4] = {1, 2, 3, 4};\n", ["ga@"], ["ga@"]
+        if "in@" in b3:
+            pre3 = "function int in@(int v) {\n  log@(v, 9);\n  return (ext@(v) + 1);\n}\n"
+            prec = "int in@(int v) { log@(v, 9); return (ext@(v) + 1); }\n"
+        yield xcase("EXT", "shape/" + name, pre3 + "function int f@(int a, int b) {\n  %s\n}\n" % b3, prec + "int f@(int a, int b);\nint f@(int a, int b) { %s }\n" % bc, "int", ["int", "int"], None, gl, cg, externs=xs)
+    # implicit conversion of the argument to the parameter type of an external
+    types = ALL12 if thorough else SIX + ["double"]
+    for t1 in types:
+        for t2 in types:
+            if t1 == t2 or not implicit_ok(t1, t2):
+                continue
+            x = ext("ext@", 1, wide(t2), [t2])
+            w = wide(t2)
+            yield xcase("EXT", "implicit-argument/%s->%s" % (t1, t2), "function %s f@(%s a) {\n  return ext@(a);\n}\n" % (w, t1), "%s f@(%s a) { return ext@((%s)a); }\n" % (CNAME[w], CNAME[t1], CNAME[t2]),
+                        w, [t1], vectors([t1], 5, 8), externs=[x])
+    # externals declared in an imported module / the same external name in two modules
+    lib = "module lib@;\npublic function int ext@(int p0);\npublic function void log@(int p0, byte p1);\n"
+    e2, l2 = ext("ext@", 1, "int", ["int"], mod="lib@", declare=False), ext("log@", 2, "void", ["int", "byte"], mod="lib@", declare=False)
+    yield xcase("EXT", "module/imported-externals", "import lib@;\nfunction int f@(int a, int b) {\n  lib@.log@(a, 1);\n  return (lib@.ext@(b) + 1);\n}\n",
+                "int f@(int a, int b) { log@(a, 1); return (ext@(b) + 1); }\n", "int", ["int", "int"], mods=[lib], externs=[e2, l2])
+    lib = "module lib@;\npublic function int ext@(int p0);\npublic function int twice@(int v) {\n  return (ext@(v) + ext@(v));\n}\n"
+    yield xcase("EXT", "module/external-used-in-both", "import lib@;\nfunction int f@(int a, int b) {\n  return (lib@.twice@(a) - lib@.ext@(b));\n}\n",
+                "int twice@(int v) { int t1 = ext@(v); int t2 = ext@(v); return (t1 + t2); }\nint f@(int a, int b) { int t1 = twice@(a); int t2 = ext@(b); return (t1 - t2); }\n", "int", ["int", "int"], mods=[lib], externs=[e2])
+    # not C3
+    for feat, body in (("too-many-arguments", "return ext@(a, a);"), ("too-few-arguments", "return ext@();"), ("value-of-procedure", "return log@(a, 1);"),
+                       ("function-as-statement", "ext@(a);\n  return a;"), ("struct-argument", "var struct { int x; } s;\n  return ext@(s);"), ("string-for-int", "return ext@(\"abc\");")):
+        yield invalid("EXT", feat, "function int ext@(int p0);\nfunction void log@(int p0, byte p1);\nfunction int f@(int a) {\n  %s\n}\n" % body)
+    yield invalid("EXT", "declared-twice", "function int ext@(int p0);\nfunction int ext@(int p0);\nfunction int f@(int a) {\n  return a;\n}\n")
+    yield invalid("EXT", "struct-parameter", "type struct { int x; } S@;\nfunction int ext@(S@ p0);\nfunction int f@(int a) {\n  return a;\n}\n")
+    yield invalid("EXT", "call-of-struct-result", "type struct { int x; } S@;\nfunction S@ ext@(int p0);\nfunction int f@(int a) {\n  ext@(a);\n  return a;\n}\n")
+    yield invalid("EXT", "struct-result", "type struct { int x; } S@;\nfunction S@ ext@(int p0);\nfunction int f@(int a) {\n  return a;\n}\n")
+
+
+def fam_REC(thorough):
+    """recursive data types: a struct may refer to itself (or to a struct defined later) through a pointer only
+    (test_c3.py test_linked_list / test_infinite_struct / test_mutual_structs)."""
+    l3 = "type struct { int x; list@* next; } list@;\n"
+    lc = "typedef struct list@ list@;\nstruct list@ { int x; list@ *next; };\n"
+    vec = [[a, b] for a in (0, 1, 2, 3, 5) for b in (-1, 0, 4)]
+    yield xcase("REC", "linked-list/global-nodes", l3 + "var list@[3] n@;\nfunction int f@(int a, int b) {\n  var int i = 0;\n  for (i = 0; i < 3; i += 1) {\n    n@[i].x = (b + i);\n    n@[i].next = &n@[((i + 1) % 3)];\n  }\n"
+                "  var list@* p = &n@[0];\n  for (i = 0; i < (a & 3); i += 1) {\n    p = p->next;\n  }\n  return ((p->x * 100) + p->next->next->x);\n}\n",
+                lc + "list@ n@[3];\nint f@(int a, int b) { int i = 0; for (i = 0; i < 3; i = i + 1) { n@[i].x = (b + i); n@[i].next = &n@[((i + 1) % 3)]; }\n"
+                "  list@ *p = &n@[0]; for (i = 0; i < (a & 3); i = i + 1) { p = p->next; } return ((p->x * 100) + p->next->next->x); }\n", "int", ["int", "int"], vec, ["n@"], [],
+                ref="test/lang/test_c3.py test_linked_list")
+    yield xcase("REC", "linked-list/local-nodes", l3 + "function int f@(int a, int b) {\n  var list@ h;\n  var list@ t;\n  h.x = a;\n  h.next = &t;\n  t.x = b;\n  t.next = &h;\n  var list@* p = &h;\n  p = p->next->next->next;\n  return ((p->x * 3) + p->next->x);\n}\n",
+                lc + "int f@(int a, int b) { list@ h; list@ t; h.x = a; h.next = &t; t.x = b; t.next = &h; list@ *p = &h; p = p->next->next->next; return ((p->x * 3) + p->next->x); }\n", "int", ["int", "int"], vec,
+                ref="test/lang/test_c3.py test_linked_list")
+    yield xcase("REC", "linked-list/null-terminated-sum", l3 + "var list@[4] n@;\nfunction int sum@(list@* p) {\n  var int s = 0;\n  while (p != 0) {\n    s += p->x;\n    p = p->next;\n  }\n  return s;\n}\n"
+                "function int f@(int a, int b) {\n  var int i = 0;\n  for (i = 0; i < 4; i += 1) {\n    n@[i].x = (b * (i + 1));\n    n@[i].next = &n@[(i + 1)];\n    if (i == (a & 3)) {\n      n@[i].next = 0;\n    }\n  }\n  return sum@(&n@[0]);\n}\n",
+                lc + "list@ n@[4];\nint sum@(list@ *p) { int s = 0; while (p != 0) { s = s + p->x; p = p->next; } return s; }\n"
+                "int f@(int a, int b) { int i = 0; for (i = 0; i < 4; i = i + 1) { n@[i].x = (b * (i + 1)); n@[i].next = (i < 3) ? &n@[(i + 1)] : 0; if (i == (a & 3)) { n@[i].next = 0; } } return sum@(&n@[0]); }\n",
+                "int", ["int", "int"], vec, ["n@"], [])
+    t3 = "type struct { int v; node@* l; node@* r; } node@;\n"
+    tc = "typedef struct node@ node@;\nstruct node@ { int v; node@ *l; node@ *r; };\n"
+    yield xcase("REC", "tree/recursive-sum", t3 + "var node@[3] n@;\nfunction int sum@(node@* p) {\n  if (p == 0) {\n    return 0;\n  }\n  return ((p->v + sum@(p->l)) + (sum@(p->r) * 2));\n}\n"
+                "function int f@(int a, int b) {\n  n@[0].v = a;\n  n@[0].l = &n@[1];\n  n@[0].r = &n@[2];\n  n@[1].v = b;\n  n@[1].l = 0;\n  n@[1].r = 0;\n  n@[2].v = 100;\n  n@[2].l = 0;\n  n@[2].r = 0;\n  if (a > 2) {\n    n@[1].l = &n@[2];\n  }\n  return sum@(&n@[0]);\n}\n",
+                tc + "node@ n@[3];\nint sum@(node@ *p) { if (p == 0) { return 0; } int t1 = sum@(p->l); int t2 = sum@(p->r); return ((p->v + t1) + (t2 * 2)); }\n"
+                "int f@(int a, int b) { n@[0].v = a; n@[0].l = &n@[1]; n@[0].r = &n@[2]; n@[1].v = b; n@[1].l = 0; n@[1].r = 0; n@[2].v = 100; n@[2].l = 0; n@[2].r = 0; if (a > 2) { n@[1].l = &n@[2]; } return sum@(&n@[0]); }\n",
+                "int", ["int", "int"], vec, ["n@"], [])
+    yield xcase("REC", "mutual/through-pointers", "type struct { int x; B@* other; } A@;\ntype struct { byte y; A@* other; } B@;\nvar A@ a1@;\nvar B@ b1@;\n"
+                "function int f@(int a, int b) {\n  a1@.other = &b1@;\n  b1@.other = &a1@;\n  a1@.x = a;\n  b1@.y = cast<byte>(b);\n  return (a1@.other->other->x + cast<int>(a1@.other->other->other->y));\n}\n",
+                "typedef struct A@ A@;\ntypedef struct B@ B@;\nstruct A@ { int x; B@ *other; };\nstruct B@ { unsigned char y; A@ *other; };\nA@ a1@;\nB@ b1@;\n"
+                "int f@(int a, int b) { a1@.other = &b1@; b1@.other = &a1@; a1@.x = a; b1@.y = (unsigned char)b; return (a1@.other->other->x + (int)a1@.other->other->other->y); }\n", "int", ["int", "int"], vec, ["a1@", "b1@"], [])
+    yield xcase("REC", "self/pointer-in-nested-struct", "type struct { int k; struct { outer@* up; int d; } in; } outer@;\nvar outer@ o@;\nfunction int f@(int a, int b) {\n  o@.k = a;\n  o@.in.d = b;\n  o@.in.up = &o@;\n  return ((o@.in.up->in.up->k * 10) + o@.in.up->in.d);\n}\n",
+                "typedef struct outer@ outer@;\nstruct outer@ { int k; struct { outer@ *up; int d; } in; };\nouter@ o@;\nint f@(int a, int b) { o@.k = a; o@.in.d = b; o@.in.up = &o@; return ((o@.in.up->in.up->k * 10) + o@.in.up->in.d); }\n",
+                "int", ["int", "int"], vec, ["o@"], [])
+    yield xcase("REC", "self/array-of-pointers", "type struct { int v; multi@*[2] kid; } multi@;\nvar multi@[2] m@;\nfunction int f@(int a, int b) {\n  m@[0].v = a;\n  m@[1].v = b;\n  m@[0].kid[0] = &m@[1];\n  m@[0].kid[1] = &m@[0];\n  m@[1].kid[0] = &m@[0];\n  m@[1].kid[1] = &m@[1];\n"
+                "  return ((m@[0].kid[(a & 1)]->v * 10) + m@[0].kid[(a & 1)]->kid[(b & 1)]->v);\n}\n",
+                "typedef struct multi@ multi@;\nstruct multi@ { int v; multi@ *kid[2]; };\nmulti@ m@[2];\nint f@(int a, int b) { m@[0].v = a; m@[1].v = b; m@[0].kid[0] = &m@[1]; m@[0].kid[1] = &m@[0]; m@[1].kid[0] = &m@[0]; m@[1].kid[1] = &m@[1];"
+                " return ((m@[0].kid[(a & 1)]->v * 10) + m@[0].kid[(a & 1)]->kid[(b & 1)]->v); }\n", "int", ["int", "int"], vec, ["m@"], [])
+    yield xcase("REC", "self/pointer-to-pointer", "type struct { int v; pp@** link; } pp@;\nvar pp@ n@;\nvar pp@* q@;\nfunction int f@(int a, int b) {\n  n@.v = a;\n  q@ = &n@;\n  n@.link = &q@;\n  (*n@.link)->v = ((*n@.link)->v + b);\n  return n@.v;\n}\n",
+                "typedef struct pp@ pp@;\nstruct pp@ { int v; pp@ **link; };\npp@ n@;\npp@ *q@;\nint f@(int a, int b) { n@.v = a; q@ = &n@; n@.link = &q@; (*n@.link)->v = ((*n@.link)->v + b); return n@.v; }\n", "int", ["int", "int"], vec, ["n@", "q@"], [])
+    # not recursive: one struct type as the type of two members / reached along two paths (check_type marks, and must unmark)
+    p3 = "type struct { int x; } P@;\n"
+    pc = "typedef struct { int x; } P@;\n"
+    why = "typechecker.check_type refuses *recursive* types; test_c3.py test_complex_type nests a named struct"
+    yield xcase("REC", "not-recursive/same-type-twice", p3 + "type struct { P@ p; P@ q; } PP@;\nvar PP@ g@;\nfunction int f@(int a, int b) {\n  g@.p.x = a;\n  g@.q.x = b;\n  return ((g@.p.x * 10) + g@.q.x);\n}\n",
+                pc + "typedef struct { P@ p; P@ q; } PP@;\nPP@ g@;\nint f@(int a, int b) { g@.p.x = a; g@.q.x = b; return ((g@.p.x * 10) + g@.q.x); }\n", "int", ["int", "int"], vec, ["g@"], [], ref=why)
+    yield xcase("REC", "not-recursive/same-type-twice-local", p3 + "type struct { P@ p; P@ q; } PP@;\nfunction int f@(int a, int b) {\n  var PP@ g;\n  g.p.x = a;\n  g.q.x = b;\n  return ((g.p.x * 10) + g.q.x);\n}\n",
+                pc + "typedef struct { P@ p; P@ q; } PP@;\nint f@(int a, int b) { PP@ g; g.p.x = a; g.q.x = b; return ((g.p.x * 10) + g.q.x); }\n", "int", ["int", "int"], vec, ref=why)
+    yield xcase("REC", "not-recursive/diamond", p3 + "type struct { P@ p; int l; } L@;\ntype struct { byte r; P@ p; } R@;\ntype struct { L@ l; R@ r; } D@;\nvar D@ g@;\nfunction int f@(int a, int b) {\n  g@.l.p.x = a;\n  g@.r.p.x = b;\n  g@.l.l = 3;\n  return ((g@.l.p.x * 10) + (g@.r.p.x + g@.l.l));\n}\n",
+                pc + "typedef struct { P@ p; int l; } L@;\ntypedef struct { unsigned char r; P@ p; } R@;\ntypedef struct { L@ l; R@ r; } D@;\nD@ g@;\nint f@(int a, int b) { g@.l.p.x = a; g@.r.p.x = b; g@.l.l = 3; return ((g@.l.p.x * 10) + (g@.r.p.x + g@.l.l)); }\n",
+                "int", ["int", "int"], vec, ["g@"], [], ref=why)
+    yield xcase("REC", "not-recursive/member-and-array-of-same-type", p3 + "type struct { P@ p; P@[2] q; } PA@;\nvar PA@ g@;\nfunction int f@(int a, int b) {\n  g@.p.x = a;\n  g@.q[1].x = b;\n  return ((g@.p.x * 10) + g@.q[1].x);\n}\n",
+                pc + "typedef struct { P@ p; P@ q[2]; } PA@;\nPA@ g@;\nint f@(int a, int b) { g@.p.x = a; g@.q[1].x = b; return ((g@.p.x * 10) + g@.q[1].x); }\n", "int", ["int", "int"], vec, ["g@"], [], ref=why)
+    yield xcase("REC", "sizeof-recursive", l3 + "function int f@(int a) {\n  return (a + sizeof(list@));\n}\n", "int f@(int a) { return (a + 12); }\n", "int", ["int"], [[0], [1]])
+    for feat, types in (("contains-itself", "type struct { int x; list@ inner; } list@;"), ("contains-array-of-itself", "type struct { int x; list@[2] inner; } list@;"),
+                        ("mutual-containment", "type struct { int x; B@ other; } A@;\ntype struct { int x; A@ other; } B@;"),
+                        ("containment-cycle-of-3", "type struct { B@ b; } A@;\ntype struct { C@ c; } B@;\ntype struct { int x; A@ a; } C@;"),
+                        ("through-nested-anonymous-struct", "type struct { int x; struct { list@ again; } in; } list@;"),
+                        ("typedef-of-itself", "type loop@ loop@;"), ("typedef-cycle", "type A@ B@;\ntype B@ A@;\nvar A@ x@;"), ("pointer-typedef-of-itself", "type P@* P@;\nvar P@ x@;"),
+                        ("unknown-type-in-struct", "type struct { int x; nosuch@ y; } S@;\nvar S@ s@;")):
+        yield invalid("REC", feat, types + "\nfunction int f@(int a) {\n  return a;\n}\n")
+
+
+def fam_MODX(thorough):
+    """several modules: mutual imports, a module spread over two sources, import chains, equal names in two modules, qualified types /
+    variables / functions / constants, access rules."""
+    vec = small_vectors(["int", "int"])
+
+    def m(feat, main3, mods, c, gl=(), cg=(), ref=None):
+        return xcase("MODX", feat, main3, c, "int", ["int", "int"], vec, gl, cg, mods=mods, ref=ref)
+
+    yield m("mutual-import", "import p2@;\npublic function int g@(int x) {\n  return (x + 1);\n}\nfunction int f@(int a, int b) {\n  return (p2@.h@(a) - b);\n}\n",
+            ["module p2@;\nimport m;\npublic function int h@(int x) {\n  return (m.g@(x) * 2);\n}\n"], "int g@(int x) { return (x + 1); }\nint h@(int x) { return (g@(x) * 2); }\nint f@(int a, int b) { return (h@(a) - b); }\n",
+            ref="docs/reference/lang/c3.rst Modules (pkg1 / pkg2 import each other)")
+    yield m("module-in-two-sources", "function int f@(int a, int b) {\n  return (g@(a) + (v@ * b));\n}\n", ["module m;\nvar int v@ = 3;\nfunction int g@(int x) {\n  return (x * 2);\n}\n"],
+            "int v@ = 3;\nint g@(int x) { return (x * 2); }\nint f@(int a, int b) { return (g@(a) + (v@ * b)); }\n", ["v@"], ["v@"], ref="docs/reference/lang/c3.rst Modules (can be defined in multiple files)")
+    yield m("import-chain", "import a1@;\nfunction int f@(int a, int b) {\n  return (a1@.g@(a) - b);\n}\n",
+            ["module a1@;\nimport a2@;\npublic function int g@(int x) {\n  return (a2@.h@(x) + 1);\n}\n", "module a2@;\npublic function int h@(int x) {\n  return (x * 3);\n}\n"],
+            "int h@(int x) { return (x * 3); }\nint g@(int x) { return (h@(x) + 1); }\nint f@(int a, int b) { return (g@(a) - b); }\n")
+    yield m("import-two-modules", "import a1@;\nimport a2@;\nfunction int f@(int a, int b) {\n  return (a1@.g@(a) - a2@.g@(b));\n}\n",
+            ["module a1@;\npublic function int g@(int x) {\n  return (x + 10);\n}\n", "module a2@;\npublic function int g@(int x) {\n  return (x * 3);\n}\n"],
+            "int g1@(int x) { return (x + 10); }\nint g2@(int x) { return (x * 3); }\nint f@(int a, int b) { return (g1@(a) - g2@(b)); }\n")
+    yield m("same-names-in-two-modules", "import a1@;\nvar int v@ = 1;\nfunction int g@(int x) {\n  return (x + 100);\n}\nfunction int f@(int a, int b) {\n  a1@.v@ += b;\n  v@ += 2;\n  return (((a1@.g@(a) + g@(a)) + v@) + a1@.v@);\n}\n",
+            ["module a1@;\npublic var int v@ = 20;\npublic function int g@(int x) {\n  return (x * 3);\n}\n"],
+            "int v@ = 1;\nint v1@ = 20;\nint g1@(int x) { return (x * 3); }\nint g@(int x) { return (x + 100); }\nint f@(int a, int b) { v1@ = v1@ + b; v@ = v@ + 2; return (((g1@(a) + g@(a)) + v@) + v1@); }\n", ["v@", "v1@"], ["v@"])
+    yield m("qualified-type/variable-parameter-sizeof", "import a1@;\nvar a1@.pair@ pr@;\nfunction int get@(a1@.pair@* p) {\n  return (p->p + cast<int>(p->q));\n}\nfunction int f@(int a, int b) {\n  pr@.p = a;\n  pr@.q = cast<byte>(b);\n  return ((get@(&pr@) + a1@.sum@(&pr@)) + sizeof(a1@.pair@));\n}\n",
+            ["module a1@;\npublic type struct { int p; byte q; } pair@;\npublic function int sum@(pair@* x) {\n  return (x->p * 10);\n}\n"],
+            "typedef struct { int p; unsigned char q; } pair@;\npair@ pr@;\nint sum@(pair@ *x) { return (x->p * 10); }\nint get@(pair@ *p) { return (p->p + (int)p->q); }\nint f@(int a, int b) { pr@.p = a; pr@.q = (unsigned char)b; return ((get@(&pr@) + sum@(&pr@)) + 5); }\n", ["pr@"], [])
+    yield m("qualified-type/typedef-of-int", "import a1@;\nfunction a1@.num@ twice@(a1@.num@ x) {\n  var a1@.num@ r = (x * 2);\n  return r;\n}\nfunction int f@(int a, int b) {\n  return (twice@(a) - b);\n}\n", ["module a1@;\npublic type int num@;\n"],
+            "int twice@(int x) { int r = (x * 2); return r; }\nint f@(int a, int b) { return (twice@(a) - b); }\n")
+    yield m("qualified-type/local-variable-and-cast", "import a1@;\nfunction int f@(int a, int b) {\n  var a1@.wide@ w = cast<a1@.wide@>(a);\n  w = (w * cast<a1@.wide@>(b));\n  return cast<int>(w);\n}\n", ["module a1@;\npublic type int64_t wide@;\n"],
+            "int f@(int a, int b) { long w = (long)a; w = (w * (long)b); return (int)w; }\n")
+    yield m("imported-array/written", "import a1@;\nfunction int f@(int a, int b) {\n  a1@.arr@[(a & 1)] = b;\n  a1@.arr@[2] += 3;\n  return ((a1@.arr@[0] + a1@.arr@[1]) + a1@.arr@[2]);\n}\n", ["module a1@;\npublic var int[3] arr@ = {1, 2, 3};\n"],
+            "int arr@[3] = {1, 2, 3};\nint f@(int a, int b) { arr@[(a & 1)] = b; arr@[2] = arr@[2] + 3; return ((arr@[0] + arr@[1]) + arr@[2]); }\n", ["arr@"], [])
+    yield m("imported-struct-variable/field", "import a1@;\nfunction int f@(int a, int b) {\n  a1@.s@.y = b;\n  return (a1@.s@.x + (a1@.s@.y * a));\n}\n", ["module a1@;\npublic type struct { int x; int y; } S@;\npublic var S@ s@ = {.x=4, .y=5};\n"],
+            "typedef struct { int x; int y; } S@;\nS@ s@ = {.x=4, .y=5};\nint f@(int a, int b) { s@.y = b; return (s@.x + (s@.y * a)); }\n", ["s@"], [])
+    yield m("imported-pointer-variable/arrow", "import a1@;\nfunction int f@(int a, int b) {\n  a1@.ps@ = &a1@.s@;\n  a1@.ps@->y = b;\n  return (a1@.get@() * a);\n}\n",
+            ["module a1@;\npublic type struct { int x; int y; } S@;\npublic var S@ s@;\npublic var S@* ps@;\npublic function int get@() {\n  return s@.y;\n}\n"],
+            "typedef struct { int x; int y; } S@;\nS@ s@;\nS@ *ps@;\nint get@(void) { return s@.y; }\nint f@(int a, int b) { ps@ = &s@; ps@->y = b; return (get@() * a); }\n", ["s@", "ps@"], [])
+    yield m("procedure-by-reference", "import a1@;\nfunction int f@(int a, int b) {\n  var int x = a;\n  a1@.addto@(&x, b);\n  a1@.addto@(&x, 1);\n  return x;\n}\n", ["module a1@;\npublic function void addto@(int* p, int d) {\n  *p += d;\n}\n"],
+            "void addto@(int *p, int d) { *p = *p + d; }\nint f@(int a, int b) { int x = a; addto@(&x, b); addto@(&x, 1); return x; }\n")
+    yield m("imported-constant/in-expression", "import a1@;\nfunction int f@(int a, int b) {\n  return ((a * a1@.n@) + b);\n}\n", ["module a1@;\nconst int n@ = (3 * 4);\n"], "int f@(int a, int b) { return ((a * 12) + b); }\n")
+    yield m("imported-constant/array-size", "import a1@;\nvar int[a1@.n@] z@;\nfunction int f@(int a, int b) {\n  z@[2] = a;\n  z@[0] = b;\n  return ((z@[2] - z@[0]) + sizeof(int[a1@.n@]));\n}\n", ["module a1@;\nconst int n@ = 3;\n"],
+            "int z@[3];\nint f@(int a, int b) { z@[2] = a; z@[0] = b; return ((z@[2] - z@[0]) + 12); }\n", ["z@"], ["z@"])
+    yield m("implicit-conversion-across-modules", "import a1@;\nfunction int f@(int a, int b) {\n  var byte c = cast<byte>(a);\n  return cast<int>((a1@.widen@(c) + a1@.widen@(b)));\n}\n", ["module a1@;\npublic function int64_t widen@(int64_t v) {\n  return (v * 3);\n}\n"],
+            "long widen@(long v) { return (v * 3); }\nint f@(int a, int b) { unsigned char c = (unsigned char)a; return (int)(widen@((long)c) + widen@((long)b)); }\n")
+    yield m("recursion-across-modules", "import a1@;\npublic function int down@(int n, int acc) {\n  if (n <= 0) {\n    return acc;\n  }\n  return a1@.step@((n - 1), (acc + n));\n}\nfunction int f@(int a, int b) {\n  return down@((a & 7), b);\n}\n",
+            ["module a1@;\nimport m;\npublic function int step@(int n, int acc) {\n  return m.down@(n, (acc * 2));\n}\n"],
+            "int down@(int n, int acc);\nint step@(int n, int acc) { return down@(n, (acc * 2)); }\nint down@(int n, int acc) { if (n <= 0) { return acc; } return step@((n - 1), (acc + n)); }\nint f@(int a, int b) { return down@((a & 7), b); }\n")
+    lib = ["module a1@;\nfunction int hid@(int x) {\n  return x;\n}\npublic function int vis@(int x) {\n  return x;\n}\ntype int hnum@;\n"]
+    for feat, main3, mods in (("private-function", "import a1@;\nfunction int f@(int a) {\n  return a1@.hid@(a);\n}\n", lib), ("private-type", "import a1@;\nvar a1@.hnum@ z@;\nfunction int f@(int a) {\n  return a;\n}\n", lib),
+                              ("undefined-member", "import a1@;\nfunction int f@(int a) {\n  return a1@.nosuch@(a);\n}\n", lib), ("module-not-imported", "function int f@(int a) {\n  return a1@.vis@(a);\n}\n", lib),
+                              ("import-of-missing-module", "import nosuch@;\nfunction int f@(int a) {\n  return a;\n}\n", None), ("import-twice", "import a1@;\nimport a1@;\nfunction int f@(int a) {\n  return a1@.vis@(a);\n}\n", lib),
+                              ("import-clashes-with-variable", "import a1@;\nvar int a1@;\nfunction int f@(int a) {\n  return a;\n}\n", lib), ("module-as-value", "import a1@;\nfunction int f@(int a) {\n  return (a1@ + a);\n}\n", lib),
+                              ("member-of-function", "import a1@;\nfunction int f@(int a) {\n  return a1@.vis@.x;\n}\n", lib), ("call-of-variable", "var int v@;\nfunction int f@(int a) {\n  return v@(a);\n}\n", None),
+                              ("same-function-in-two-sources", "function int g@(int x) {\n  return x;\n}\nfunction int f@(int a) {\n  return g@(a);\n}\n", ["module m;\nfunction int g@(int x) {\n  return (x + 1);\n}\n"])):
+        yield invalid("MODX", feat, main3, mods)
+
+
+def fam_KUSE(thorough):
+    """constants in use: a constant of every scalar type; constant expressions with casts and floating point; constants as array sizes
+    (global, local, struct member, sizeof, 2-d), loop bounds, case labels, indices, shift counts, initial values; definition order."""
+    vec = [[v] for v in (0, 1, -3, 7)]
+    for t in ALL12:
+        w = wide(t)
+        v = GI_VALUE[t]
+        for form, v3 in (("literal", c3_lit(v)), ("cast", "cast<%s>(%s)" % (t, c3_lit(v)))):
+            yield xcase("KUSE", "typed-constant/%s/%s" % (form, t), "const %s k@ = %s;\nfunction %s f@(int a) {\n  return (cast<%s>(k@) + cast<%s>(a));\n}\n" % (t, v3, w, w, w),
+                        "%s f@(int a) { return ((%s)(%s)%s + (%s)a); }\n" % (CNAME[w], CNAME[w], CNAME[t], c3_lit(v), CNAME[w]), w, ["int"], vec)
+    for t in ALL12:
+        v = GI_VALUE[t]
+        if not implicit_ok("int", t) and not is_float(t):
+            continue
+        for op in ("+", "*"):
+            e = B(op, K(v, t), P("a", t))
+            yield xcase("KUSE", "typed-constant-arithmetic/%s/%s" % (op, t), "const %s k@ = %s;\nfunction %s f@(%s a) {\n  return (k@ %s a);\n}\n" % (t, c3_lit(v), t, t, op),
+                        "%s f@(%s a) { return %s; }\n" % (CNAME[t], CNAME[t], c_expr(e)), t, [t], vectors([t], 7, 8))
+    yield xcase("KUSE", "typed-constant/literal/bool", "const bool k@ = true;\nfunction int f@(int a) {\n  if (k@) {\n    return (a + 1);\n  }\n  return a;\n}\n", "int f@(int a) { if (1) { return (a + 1); } return a; }\n", "int", ["int"], vec)
+    yield xcase("KUSE", "typed-constant/cast/pointer", "const int* k@ = cast<int*>(64);\nfunction int64_t f@(int a) {\n  return (cast<int64_t>(k@) + cast<int64_t>(a));\n}\n", "long f@(int a) { return ((long)(int *)64 + (long)a); }\n", "int64_t", ["int"], vec)
+    exprs = [("cast-double-to-int", "int", "cast<int>(7.9)", "(int)7.9"), ("cast-int-to-double", "double", "cast<double>(3)", "(double)3"), ("cast-to-byte-wraps", "byte", "cast<byte>(((2 + 99) + 200))", "(unsigned char)((2 + 99) + 200)"),
+             ("double-division", "double", "(7.0 / 2.0)", "(7.0 / 2.0)"), ("double-remainder", "double", "(7.5 % 2.0)", "__builtin_fmod(7.5, 2.0)"), ("double-times-int", "double", "(2.5 * 3)", "(2.5 * 3)"),
+             ("int-over-double", "double", "(7 / 2.0)", "(7 / 2.0)"), ("double-arithmetic", "double", "((1.5 + 2.25) - (0.5 * 4.0))", "((1.5 + 2.25) - (0.5 * 4.0))"),
+             ("int-literal-into-double", "double", "3", "3.0"), ("int-expression-into-float", "float", "(7 / 2)", "(float)(7 / 2)"), ("double-into-float", "float", "2.7", "(float)2.7"),
+             ("cast-inside-arithmetic", "int", "(cast<int>(7.9) * 3)", "((int)7.9 * 3)"), ("byte-literal-wraps", "byte", "300", "(unsigned char)300"),
+             ("reference-casted", "int", "cast<int>(kd@)", "(int)2.75")]
+    for name, t, e3, ec in exprs:
+        w = wide(t)
+        pre = "const double kd@ = 2.75;\n" if "kd@" in e3 else ""
+        yield xcase("KUSE", "expression/%s" % name, pre + "const %s k@ = %s;\nfunction %s f@(int a) {\n  return (cast<%s>(k@) + cast<%s>(a));\n}\n" % (t, e3, w, w, w),
+                    "%s f@(int a) { return ((%s)(%s)%s + (%s)a); }\n" % (CNAME[w], CNAME[w], CNAME[t], ec, CNAME[w]), w, ["int"], vec, ref="test/lang/test_c3.py test_constant (cast<byte>(2 + 99))" if "byte" in name else None)
+    # operators of the expression grammar other than + - * / % inside constants
+    for name, t, e3, ec in (("shift-left", "int", "(3 << 2)", "(3 << 2)"), ("shift-right", "int", "(12 >> 2)", "(12 >> 2)"), ("bit-and", "int", "(6 & 3)", "(6 & 3)"), ("bit-or", "int", "(6 | 3)", "(6 | 3)"),
+                            ("bit-xor", "int", "(6 ^ 3)", "(6 ^ 3)"), ("unary-minus", "int", "(-5)", "(-5)"), ("unary-plus", "int", "(+5)", "(+5)"), ("sizeof", "int", "sizeof(int64_t)", "8"),
+                            ("comparison", "bool", "(3 < 4)", "(3 < 4)"), ("logical-and", "bool", "(true and false)", "(1 && 0)"), ("logical-not", "bool", "(not true)", "(!1)")):
+        if t == "bool":
+            yield xcase("KUSE", "operator/%s" % name, "const bool k@ = %s;\nfunction int f@(int a) {\n  if (k@) {\n    return (a + 1);\n  }\n  return a;\n}\n" % e3, "int f@(int a) { if (%s) { return (a + 1); } return a; }\n" % ec, "int", ["int"], vec)
+        else:
+            yield xcase("KUSE", "operator/%s" % name, "const int k@ = %s;\nfunction int f@(int a) {\n  return (a + k@);\n}\n" % e3, "int f@(int a) { return (a + %s); }\n" % ec, "int", ["int"], vec)
+    # a constant expression is typed like any other expression: arithmetic on byte constants is arithmetic in byte (context.get_common_type:
+    # byte + byte -> byte), a value converted to float has single precision -- whatever the evaluated constant is used for
+    kb = "const byte kb@ = 200;\nconst byte kc@ = 250;\n"
+    for name, e3, val in (("add", "(kb@ + kb@)", 144), ("mul", "(kb@ * kc@)", 80), ("sub", "(kb@ - kc@)", 206), ("cast-operands", "(cast<byte>(200) + cast<byte>(100))", 44), ("add-then-divide", "((kb@ + kc@) / 2)", 97)):
+        for use, c3, c in (("int-constant", "const int k@ = %s;\nfunction int f@(int a) {\n  return (a + k@);\n}\n" % e3, "int f@(int a) { return (a + %d); }\n" % val),
+                           ("global-initial-value", "var int g@ = %s;\nfunction int f@(int a) {\n  return (a + g@);\n}\n" % e3, "int g@ = %d;\nint f@(int a) { return (a + g@); }\n" % val),
+                           ("array-size", "function int f@(int a) {\n  return (a + sizeof(byte[%s]));\n}\n" % e3, "int f@(int a) { return (a + %d); }\n" % val)):
+            cs = xcase("KUSE", "typed-evaluation/byte-%s/%s" % (name, use), kb + c3, c, "int", ["int"], vec, ["g@"] if "g@" in c else [], ["g@"] if "g@" in c else [])
+            cs["locus"] = "constant-expression/arithmetic-in-byte"
+            yield cs
+    kf = "const float kf@ = 0.1;\n"
+    for name, e3, ec in (("float-constant-into-double", "kf@", "(double)0.1f"), ("cast-to-float", "cast<float>(0.1)", "(double)(float)0.1"), ("float-times-int", "(kf@ * 3)", "(double)(0.1f * (float)3)"),
+                         ("float-plus-float", "(kf@ + cast<float>(0.7))", "(double)(0.1f + 0.7f)")):
+        for use, c3, c in (("double-constant", "const double k@ = %s;\nfunction double f@(int a) {\n  return (k@ + cast<double>(a));\n}\n" % e3, "double f@(int a) { return (%s + (double)a); }\n" % ec),
+                           ("global-initial-value", "var double g@ = %s;\nfunction double f@(int a) {\n  return (g@ + cast<double>(a));\n}\n" % e3, "double g@ = %s;\ndouble f@(int a) { return (g@ + (double)a); }\n" % ec)):
+            cs = xcase("KUSE", "typed-evaluation/%s/%s" % (name, use), kf + c3, c, "double", ["int"], vec, ["g@"] if "g@" in c else [], ["g@"] if "g@" in c else [])
+            cs["locus"] = "constant-expression/single-precision"
+            yield cs
+    n3 = "const int n@ = (3 * 4);\nconst int k@ = 2;\n"
+    uses = [("global-array-size", "var int[n@] z@;\n", "int z@[12];\n", "z@[11] = a;\n  z@[0] = 1;\n  return (z@[11] + z@[0]);", "z@[11] = a; z@[0] = 1; return (z@[11] + z@[0]);", ["z@"]),
+            ("global-array-size-expression", "var int[(n@ + k@)] z@;\n", "int z@[14];\n", "z@[13] = a;\n  z@[0] = 1;\n  return ((z@[13] + z@[0]) + sizeof(int[(n@ + k@)]));", "z@[13] = a; z@[0] = 1; return ((z@[13] + z@[0]) + 56);", ["z@"]),
+            ("local-array-size", "", "", "var int[n@] x;\n  x[11] = a;\n  x[0] = 1;\n  return (x[11] + x[0]);", "int x[12]; x[11] = a; x[0] = 1; return (x[11] + x[0]);", []),
+            ("struct-member-array-size", "type struct { byte h; int[k@] m; byte t; } S@;\nvar S@ s@;\n", "typedef struct { unsigned char h; int m[2]; unsigned char t; } S@;\nS@ s@;\n",
+             "s@.h = 1;\n  s@.t = 2;\n  s@.m[1] = a;\n  s@.m[0] = 5;\n  return (((s@.m[1] + s@.m[0]) + cast<int>((s@.h + s@.t))) + sizeof(S@));", "s@.h = 1; s@.t = 2; s@.m[1] = a; s@.m[0] = 5; return (((s@.m[1] + s@.m[0]) + (int)(unsigned char)(s@.h + s@.t)) + 10);", []),
+            ("two-dimensional-size", "var int[k@][n@] z@;\n", "int z@[12][2];\n", "z@[11][1] = a;\n  z@[0][0] = 1;\n  return ((z@[11][1] + z@[0][0]) + sizeof(int[k@][n@]));", "z@[11][1] = a; z@[0][0] = 1; return ((z@[11][1] + z@[0][0]) + 96);", ["z@"]),
+            ("sizeof-array", "", "", "return (a + sizeof(byte[n@]));", "return (a + 12);", []),
+            ("loop-bound", "", "", "var int i = 0;\n  var int s = 0;\n  for (i = 0; i < n@; i += k@) {\n    s += (a + i);\n  }\n  return s;", "int i = 0; int s = 0; for (i = 0; i < 12; i = i + 2) { s = s + (a + i); } return s;", []),
+            ("case-label", "", "", "switch ((a & 3)) {\n    case k@: {\n      return 20;\n    }\n    case (k@ + 1): {\n      return 30;\n    }\n    default: {\n      return a;\n    }\n  }\n  return 0;",
+             "switch ((a & 3)) { case 2: { return 20; } break; case 3: { return 30; } break; default: { return a; } break; } return 0;", []),
+            ("index", "var int[4] z@ = {5, 6, 7, 8};\n", "int z@[4] = {5, 6, 7, 8};\n", "z@[k@] = a;\n  return (z@[k@] + z@[(k@ + 1)]);", "z@[2] = a; return (z@[2] + z@[3]);", ["z@"]),
+            ("shift-count", "", "", "return ((a << k@) + (n@ >> k@));", "return ((int)((unsigned)a << 2) + (12 >> 2));", []),
+            ("initial-value-of-global", "var int g@ = (n@ * k@);\nvar byte[2] h@ = {n@, (n@ + 250)};\n", "int g@ = 24;\nunsigned char h@[2] = {12, 6};\n", "return ((g@ + cast<int>(h@[0])) + (cast<int>(h@[1]) * a));", "return ((g@ + (int)h@[0]) + ((int)h@[1] * a));", ["g@", "h@"]),
+            ("initial-value-of-local", "", "", "var int x = (n@ - k@);\n  var int64_t y = n@;\n  return (x + cast<int>((y * cast<int64_t>(a))));", "int x = 10; long y = 12; return (x + (int)(y * (long)a));", []),
+            ("argument-and-return", "function int id@(int v) {\n  return (v + k@);\n}\n", "int id@(int v) { return (v + 2); }\n", "return (id@(n@) * a);", "return (id@(12) * a);", []),
+            ("comparison", "", "", "if (a < k@) {\n    return n@;\n  }\n  return k@;", "if (a < 2) { return 12; } return 2;", [])]
+    for name, g3, gc, b3, bc, cg in uses:
+        yield xcase("KUSE", "use/%s" % name, n3 + g3 + "function int f@(int a) {\n  %s\n}\n" % b3, gc + "int f@(int a) { %s }\n" % bc, "int", ["int"], [[0], [1], [2], [3], [-3], [7]], cg, cg)
+    yield xcase("KUSE", "order/used-before-definition", "function int f@(int a) {\n  return (a + k2@);\n}\nconst int k2@ = (k1@ * 2);\nconst int k1@ = 4;\nvar int[k2@] late@;\n", "int late@[8];\nint f@(int a) { return (a + 8); }\n", "int", ["int"], vec, ["late@"], ["late@"])
+    yield xcase("KUSE", "order/chain-of-3", "const int k1@ = 2;\nconst int k2@ = (k1@ + k1@);\nconst int k3@ = (k2@ * k2@);\nfunction int f@(int a) {\n  return ((a * k3@) + k2@);\n}\n", "int f@(int a) { return ((a * 16) + 4); }\n", "int", ["int"], vec)
+    yield xcase("KUSE", "several-in-one-definition", "const int p@ = 3, q@ = (p@ + 1);\nfunction int f@(int a) {\n  return ((a * p@) + q@);\n}\n", "int f@(int a) { return ((a * 3) + 4); }\n", "int", ["int"], vec)
+    yield xcase("KUSE", "local-hides-constant", "const int k@ = 5;\nfunction int f@(int a) {\n  var int k@ = (a + 1);\n  return (k@ * 2);\n}\n", "int f@(int a) { int k = (a + 1); return (k * 2); }\n", "int", ["int"], vec)
+    for feat, decl in (("constant-cycle", "const int p@ = (q@ + 1);\nconst int q@ = (p@ + 1);"), ("constant-from-variable", "var int v@;\nconst int p@ = (v@ + 1);"), ("constant-of-itself", "const int p@ = (p@ + 1);"),
+                       ("double-into-int-constant", "const int p@ = (7 / 2.0);"), ("array-size-from-variable", "var int v@ = 3;\nvar int[v@] z@;"), ("assignment-to-constant", "const int p@ = 1;\nfunction void s@() {\n  p@ = 2;\n}"),
+                       ("address-of-constant", "const int p@ = 1;\nfunction void s@() {\n  var int* q = &p@;\n}"), ("constant-defined-twice", "const int p@ = 1;\nconst int p@ = 2;"),
+                       ("constant-from-call", "function int g@() {\n  return 1;\n}\nconst int p@ = g@();"),
+                       ("case-label-not-an-integer", "function int s@(int a) {\n  switch (a) {\n    case 2.5: {\n      return 1;\n    }\n    default: {\n      return 0;\n    }\n  }\n  return 2;\n}"),
+                       ("case-label-from-variable", "function int s@(int a) {\n  switch (a) {\n    case a: {\n      return 1;\n    }\n    default: {\n      return 0;\n    }\n  }\n  return 2;\n}")):
+        # (a constant is evaluated when it is used)
+        yield invalid("KUSE", feat, decl + "\nfunction int f@(int a) {\n  return %s;\n}\n" % ("(a + p@)" if "const int p@" in decl and "function" not in decl.replace("function int g@", "") else "a"))
+
+
+def fam_COERCE(thorough):
+    """the places where the type checker converts implicitly, over the type pairs of `implicit_ok` (accepted) and its complement (must be
+    refused): local initialiser, shorthand assignment, array index, switch selector, operands of a comparison in if / while / for
+    position, comparison with a literal; what a condition may be."""
+    types = ALL12
+    for t1 in types:
+        for t2 in types:
+            if t1 == t2:
+                continue
+            if implicit_ok(t1, t2):
+                yield case("COERCE", "local-initialiser/%s->%s" % (t1, t2), simple(t2, [("a", t1)], [("var", "x", t2, IMP(P("a", t1), t2)), ("ret", P("x", t2))]), k=7)
+            elif not (is_int(t1) and is_int(t2) and INTS[t1] == INTS[t2]):
+                yield invalid("COERCE", "not-implicit/%s->%s" % (t1, t2), "function %s f@(%s a) {\n  return a;\n}\n" % (t2, t1))
+    six = INT_NAMES if thorough else SIX
+    for t1 in six:
+        for t2 in six:
+            if same_type(t1, t2) or not implicit_ok(t2, t1):
+                continue
+            for op in ("+", "&") if not thorough else AUGOPS:
+                x = P("x", t1)
+                yield case("COERCE", "shorthand/%s=/%s/%s" % (op, t1, t2), simple(t1, [("a", t1), ("b", t2)], [("var", "x", t1, P("a", t1)), ("aug", op, x, IMP(P("b", t2), t1)), ("ret", x)]), k=5, cap=25)
+    AT = ("arr", "int", 4)
+    for t in INT_NAMES:
+        if implicit_ok(t, "int"):
+            yield case("COERCE", "index/%s" % t, {"globals": [("z@", AT, [K(5, "int"), K(6, "int"), K(7, "int"), K(8, "int")])], "funcs": [fn("int", [("a", t)], [("ret", ("idx", P("z@", AT), IMP(P("a", t), "int"), "int"))])]},
+                       vecs=[[0], [1], [2], [3]])
+        else:
+            yield invalid("COERCE", "index/%s" % t, "var int[4] z@;\nfunction int f@(%s a) {\n  return z@[a];\n}\n" % t)
+        if same_type(t, "int"):
+            yield case("COERCE", "switch-selector/%s" % t, simple("int", [("a", t)], [("switch", P("a", t), [(0, [("ret", K(10, "int"))]), (1, [("ret", K(20, "int"))]), (5, [("ret", K(30, "int"))])], [("ret", K(40, "int"))]), ("ret", K(0, "int"))]),
+                       vecs=[[0], [1], [2], [5], [-1]])
+        else:
+            yield invalid("COERCE", "switch-selector/%s" % t, "function int f@(%s a) {\n  switch (a) {\n    case 1: {\n      return 1;\n    }\n    default: {\n      return 0;\n    }\n  }\n  return 2;\n}\n" % t)
+    for t1 in six + ["double"]:
+        for t2 in six + ["double"]:
+            if t1 == t2:
+                continue
+            a, b = P("a", t1), P("b", t2)
+            for op in ("<", "==") if not thorough else CMPS:
+                c = mixed_bin(op, a, b)
+                if c is None:
+                    continue
+                ps = [("a", t1), ("b", t2)]
+                yield case("COERCE", "condition/if/%s/%s/%s" % (op, t1, t2), simple("int", ps, [("if", c, [("ret", K(1, "int"))], [("ret", K(2, "int"))])]), k=5, cap=25)
+                if op == "<" and is_int(t1) and is_int(t2):
+                    # a loop whose condition compares a counter of type t1 with a bound of type t2 (bound masked to 0..3)
+                    one = K(1, t1)
+                    body = [("var", "i", t1, K(0, t1)), ("var", "n", "int", K(0, "int")),
+                            ("while", mixed_bin("<", P("i", t1), B("&", b, K(3, t2))), [("aug", "+", P("i", t1), one), ("aug", "+", P("n", "int"), K(1, "int"))]), ("ret", P("n", "int"))]
+                    yield case("COERCE", "condition/while/%s/%s/%s" % (op, t1, t2), simple("int", [("b", t2)], body), k=7)
+    for t in ALL12:
+        a = P("a", t)
+        for op in ("<", "==", ">="):
+            for v in (3, 200):
+                c = mixed_bin(op, a, K(v, "int"))
+                if c is None:
+                    continue
+                yield case("COERCE", "condition/literal/%s/%s" % (op, t), simple("int", [("a", t)], [("var", "n", "int", K(0, "int")), ("if", c, [("set", P("n", "int"), K(1, "int"))], []),
+                                                                                                  ("for", ("set", P("n", "int"), P("n", "int")), ("and", c, CMP("<", P("n", "int"), K(3, "int")), "bool"), ("aug", "+", P("n", "int"), K(1, "int")), []),
+                                                                                                  ("ret", P("n", "int"))]), k=9)
+    # a condition is a bool: nothing else converts to it, and a bool converts to nothing
+    for t in ("int", "byte", "int64_t", "double", "int*"):
+        for feat, stmt in (("if", "if (a) {\n    return 1;\n  }"), ("while", "while (a) {\n    return 1;\n  }"), ("not", "if (not a) {\n    return 1;\n  }"), ("and", "if ((a == a) and a) {\n    return 1;\n  }")):
+            yield invalid("COERCE", "condition-not-bool/%s/%s" % (feat, t), "function int f@(%s a) {\n  %s\n  return 0;\n}\n" % (t, stmt))
+    for feat, body in (("arithmetic-as-condition", "if ((a & 1)) {\n    return 1;\n  }\n  return 0;"), ("bool-into-int", "var int x = (a < 3);\n  return x;"), ("int-into-bool", "var bool x = a;\n  return 0;"),
+                       ("bool-plus-int", "var bool x = (a < 3);\n  return (x + 1);"), ("bool-compared-with-int", "var bool x = (a < 3);\n  if (x == 1) {\n    return 1;\n  }\n  return 0;"),
+                       ("struct-plus-int", "var struct { int x; } s;\n  return (s + a);"),
+                       ("expression-as-statement", "2;\n  return a;"), ("assignment-to-a-sum", "(a + 1) = 2;\n  return a;"), ("function-as-value", "return (f@ + 1);"),
+                       ("no-such-field", "var struct { int x; } s;\n  s.z = 2;\n  return a;"), ("field-of-int", "a.z = 2;\n  return a;"), ("undefined-identifier", "return (a + nosuch@);"),
+                       ("undefined-type", "var nosuch@ x;\n  return a;"), ("variable-defined-twice", "var int x;\n  var int x;\n  return a;"), ("assign-struct", "var struct { int x; } s;\n  var struct { int x; } t;\n  s = t;\n  return a;")):
+        yield invalid("COERCE", feat, "function int f@(int a) {\n  %s\n}\n" % body)
+    yield invalid("COERCE", "return-nothing-from-function", "function int f@(int a) {\n  return;\n}\n")
+    yield invalid("COERCE", "return-value-from-void", "function void p@() {\n  return 1;\n}\nfunction int f@(int a) {\n  return a;\n}\n")
+    yield invalid("COERCE", "missing-return", "function int f@(int a) {\n  a = 1;\n}\n")
+    yield invalid("COERCE", "switch-without-default", "function int f@(int a) {\n  switch (a) {\n    case 1: {\n      return 1;\n    }\n  }\n  return 0;\n}\n")
+    # bool is usable where a bool is wanted: equality of bools, bool arguments
+    yield xcase("COERCE", "bool/cast-to-int", "function int f@(int a, int b) {\n  return (cast<int>((a < b)) + 1);\n}\n", "int f@(int a, int b) { return ((int)(a < b) + 1); }\n", "int", ["int", "int"])
+    yield xcase("COERCE", "bool/cast-from-int", "function int f@(int a, int b) {\n  var bool x = cast<bool>((a & 1));\n  if (x) {\n    return b;\n  }\n  return 0;\n}\n", "int f@(int a, int b) { int x = (a & 1); if (x) { return b; } return 0; }\n", "int", ["int", "int"])
+    yield xcase("COERCE", "bool/equality-of-bools", "function int f@(int a, int b) {\n  var bool x = (a < 3);\n  var bool y = (b < 3);\n  if (x == y) {\n    return 1;\n  }\n  return 0;\n}\n",
+                "int f@(int a, int b) { int x = (a < 3); int y = (b < 3); if (x == y) { return 1; } return 0; }\n", "int", ["int", "int"])
+
+
 def all_cases(tier, seed=0):
     thorough = tier != "quick"
     out = []
@@ -1371,6 +2102,8 @@ def all_cases(tier, seed=0):
     out += list(fam_X(thorough))
     out += list(fam_CONST(thorough))
     out += list(fam_MOD())
+    for fam in (fam_GI, fam_STR, fam_PCAST, fam_EXT, fam_REC, fam_MODX, fam_KUSE, fam_COERCE):
+        out += list(fam(thorough))
     if thorough:
         out += list(fam_E2(INT_NAMES))
         out += list(fam_E3(["int", "byte", "int8_t", "int16_t", "int64_t", "uint16_t", "uint32_t", "uint64_t"]))
